@@ -5,11 +5,1895 @@ C08, C10, C20.
 -/
 import Bolt.Model.Store
 import Bolt.Lemmas.Freelist
+
+/-! ## Part 1 — additional allocator facts (frames for `allocs`/`readers`, pending entries) -/
+namespace Bolt.FL
+
+/-- `(q, a)` is recorded as pending for transaction `t` (`a` = allocating txid or 0). -/
+def PEnt (pending : List (Txid × TxPending)) (t : Txid) (q : Pgid) (a : Txid) : Prop :=
+  ∃ txp, (t, txp) ∈ pending ∧ (q, a) ∈ txp.ids
+
+theorem mem_pendingIds {f : FL} {q : Nat} : q ∈ f.pendingIds ↔ ∃ t a, PEnt f.pending t q a := by
+  rw [pendingIds_eq, mem_pidsOf]
+  constructor
+  · rintro ⟨t, txp, a, h1, h2⟩; exact ⟨t, a, txp, h1, h2⟩
+  · rintro ⟨t, a, txp, h1, h2⟩; exact ⟨t, txp, a, h1, h2⟩
+
+theorem PEnt.mem_pendingIds {f : FL} {t q a : Nat} (h : PEnt f.pending t q a) : q ∈ f.pendingIds :=
+  FL.mem_pendingIds.mpr ⟨t, a, h⟩
+
+theorem PEnt.key {pending : List (Txid × TxPending)} {t q a : Nat} (h : PEnt pending t q a) :
+    ∃ e ∈ pending, e.1 = t := by
+  obtain ⟨txp, h1, _⟩ := h
+  exact ⟨(t, txp), h1, rfl⟩
+
+theorem pent_nil {t q a : Nat} : ¬ PEnt [] t q a := by
+  rintro ⟨_, h, _⟩; cases h
+
+theorem pent_addPending (pending : List (Txid × TxPending)) (txid : Txid) (new : List (Pgid × Txid))
+    (t q a : Nat) :
+    PEnt (addPending pending txid new) t q a ↔ (PEnt pending t q a ∨ (t = txid ∧ (q, a) ∈ new)) := by
+  unfold addPending
+  split
+  · rename_i p0 hsome
+    have h1 := List.mem_of_find?_eq_some hsome
+    have h2 : p0.1 = txid := by simpa using List.find?_some hsome
+    constructor
+    · rintro ⟨txp, hm, hx⟩
+      rw [List.mem_map] at hm
+      obtain ⟨p, hp, he⟩ := hm
+      by_cases hpt : p.1 = txid
+      · rw [if_pos hpt] at he
+        cases he
+        rcases List.mem_append.mp hx with hx | hx
+        · exact Or.inl ⟨p.2, hp, hx⟩
+        · exact Or.inr ⟨hpt, hx⟩
+      · rw [if_neg hpt] at he
+        subst he
+        exact Or.inl ⟨_, hp, hx⟩
+    · rintro (⟨txp, hm, hx⟩ | ⟨rfl, hx⟩)
+      · by_cases hpt : t = txid
+        · refine ⟨{ txp with ids := txp.ids ++ new }, ?_, List.mem_append_left _ hx⟩
+          rw [List.mem_map]
+          exact ⟨(t, txp), hm, by simp [hpt]⟩
+        · refine ⟨txp, ?_, hx⟩
+          rw [List.mem_map]
+          exact ⟨(t, txp), hm, by simp [hpt]⟩
+      · refine ⟨{ p0.2 with ids := p0.2.ids ++ new }, ?_, List.mem_append_right _ hx⟩
+        rw [List.mem_map]
+        exact ⟨p0, h1, by rw [if_pos h2, h2]⟩
+  · constructor
+    · rintro ⟨txp, hm, hx⟩
+      rcases List.mem_append.mp hm with hm | hm
+      · exact Or.inl ⟨txp, hm, hx⟩
+      · simp only [List.mem_singleton, Prod.mk.injEq] at hm
+        obtain ⟨rfl, rfl⟩ := hm
+        exact Or.inr ⟨rfl, hx⟩
+    · rintro (⟨txp, hm, hx⟩ | ⟨rfl, hx⟩)
+      · exact ⟨txp, List.mem_append_left _ hm, hx⟩
+      · exact ⟨{ ids := new, lastReleaseBegin := 0 }, by simp, hx⟩
+
+theorem addPending_key (pending : List (Txid × TxPending)) (txid : Txid) (new : List (Pgid × Txid)) :
+    ∀ e ∈ addPending pending txid new, e.1 = txid ∨ ∃ e' ∈ pending, e'.1 = e.1 := by
+  intro e he
+  unfold addPending at he
+  split at he
+  · rw [List.mem_map] at he
+    obtain ⟨p, hp, rfl⟩ := he
+    right
+    refine ⟨p, hp, ?_⟩
+    split <;> rfl
+  · rcases List.mem_append.mp he with he | he
+    · exact Or.inr ⟨e, he, rfl⟩
+    · simp only [List.mem_singleton] at he
+      subst he
+      exact Or.inl rfl
+
+theorem pent_filter_ne (pending : List (Txid × TxPending)) (txid t q a : Nat) :
+    PEnt (pending.filter (fun p => p.1 ≠ txid)) t q a ↔ (PEnt pending t q a ∧ t ≠ txid) := by
+  constructor
+  · rintro ⟨txp, hm, hx⟩
+    rw [List.mem_filter] at hm
+    exact ⟨⟨txp, hm.1, hx⟩, by simpa using hm.2⟩
+  · rintro ⟨⟨txp, hm, hx⟩, hne⟩
+    exact ⟨txp, List.mem_filter.mpr ⟨hm, by simpa using hne⟩, hx⟩
+
+theorem fst_unique {l : List (Pgid × Txid)} (h : (l.map (·.1)).Nodup) {q a a' : Nat}
+    (h1 : (q, a) ∈ l) (h2 : (q, a') ∈ l) : a = a' := by
+  induction l with
+  | nil => cases h1
+  | cons x xs ih =>
+    rw [List.map_cons, List.nodup_cons] at h
+    rcases List.mem_cons.mp h1 with e1 | m1 <;> rcases List.mem_cons.mp h2 with e2 | m2
+    · rw [← e1] at e2; cases e2; rfl
+    · subst e1
+      exact absurd (List.mem_map.mpr ⟨(q, a'), m2, rfl⟩) h.1
+    · subst e2
+      exact absurd (List.mem_map.mpr ⟨(q, a), m1, rfl⟩) h.1
+    · exact ih h.2 m1 m2
+
+theorem pent_unique {pending : List (Txid × TxPending)} (hnd : (pidsOf pending).Nodup)
+    {t t' q a a' : Nat} (h : PEnt pending t q a) (h' : PEnt pending t' q a') : t = t' ∧ a = a' := by
+  induction pending with
+  | nil => exact absurd h pent_nil
+  | cons p ps ih =>
+    rw [pidsOf_cons, List.nodup_append] at hnd
+    obtain ⟨hn1, hn2, hn3⟩ := hnd
+    obtain ⟨txp, hm, hx⟩ := h
+    obtain ⟨txp', hm', hx'⟩ := h'
+    have hq : ∀ {t txp a}, (t, txp) ∈ ps → (q, a) ∈ txp.ids → q ∈ pidsOf ps :=
+      fun hm hx => mem_pidsOf.mpr ⟨_, _, _, hm, hx⟩
+    rcases List.mem_cons.mp hm with e1 | m1 <;> rcases List.mem_cons.mp hm' with e2 | m2
+    · subst e1
+      cases e2
+      exact ⟨rfl, fst_unique hn1 hx hx'⟩
+    · subst e1
+      exact absurd rfl (hn3 q (List.mem_map.mpr ⟨(q, a), hx, rfl⟩) q (hq m2 hx'))
+    · subst e2
+      exact absurd rfl (hn3 q (List.mem_map.mpr ⟨(q, a'), hx', rfl⟩) q (hq m1 hx))
+    · exact ih hn2 ⟨txp, m1, hx⟩ ⟨txp', m2, hx'⟩
+
+theorem FLInv.pent_unique {f : FL} (hinv : FLInv f) {t t' q a a' : Nat}
+    (h : PEnt f.pending t q a) (h' : PEnt f.pending t' q a') : t = t' ∧ a = a' :=
+  FL.pent_unique (pendingIds_eq f ▸ hinv.pending_nodup) h h'
+
+/-! ### `Allocate`: frames and a backend-independent contract -/
+
+theorem mem_setAlloc {al : List (Pgid × Txid)} {id tx : Nat} {x : Pgid × Txid}
+    (h : x ∈ setAlloc al id tx) : x = (id, tx) ∨ x ∈ al := by
+  unfold setAlloc at h
+  rcases List.mem_cons.mp h with h | h
+  · exact Or.inl h
+  · exact Or.inr (List.mem_filter.mp h).1
+
+theorem allocate_frame {f : FL} {txid n c : Nat} {g : FL} {id : Nat}
+    (h : f.allocate txid n c = some (g, id)) :
+    g.readers = f.readers ∧ ∀ x ∈ g.allocs, x ∈ f.allocs ∨ x = (id, txid) := by
+  unfold FL.allocate at h
+  split at h
+  · split at h
+    · cases h; exact ⟨rfl, fun x hx => Or.inl hx⟩
+    · split at h
+      · cases h
+      · cases h; exact ⟨rfl, fun x hx => Or.inl hx⟩
+      · cases h
+        exact ⟨rfl, fun x hx => (mem_setAlloc hx).symm⟩
+  · split at h
+    · split at h
+      · cases h; exact ⟨rfl, fun x hx => Or.inl hx⟩
+      · cases h
+    · split at h
+      · split at h
+        · cases h
+        · cases h; exact ⟨rfl, fun x hx => Or.inl hx⟩
+      · split at h
+        · split at h
+          · cases h
+          · cases h
+            exact ⟨rfl, fun x hx => (mem_setAlloc hx).symm⟩
+        · cases h
+
+/-- `Allocate`, either backend, any legal choice. -/
+theorem allocate_spec {f : FL} (hinv : FLInv f) {txid n c : Nat} {g : FL} {id : Nat}
+    (h : f.allocate txid n c = some (g, id)) :
+    FLInv g ∧ g.pending = f.pending ∧ g.readers = f.readers ∧
+    (∀ x ∈ g.allocs, x ∈ f.allocs ∨ x = (id, txid)) ∧
+    (id ≠ 0 → 0 < n ∧ 2 ≤ id ∧ (∀ q, id ≤ q → q < id + n → q ∈ f.freeIds) ∧
+              (∀ q, q ∈ g.freeIds ↔ (q ∈ f.freeIds ∧ ¬ (id ≤ q ∧ q < id + n)))) ∧
+    (id = 0 → g = f) := by
+  obtain ⟨hr, ha⟩ := allocate_frame h
+  cases hk : f.kind with
+  | array =>
+    obtain ⟨g', id', h', h1, h2, h3, h4⟩ := array_allocate_spec' hk hinv txid n c
+    rw [h] at h'
+    cases h'
+    refine ⟨h1, h2, hr, ha, fun h0 => ?_, fun h0 => (h4 h0).1⟩
+    obtain ⟨a1, a2, a3, a4, _⟩ := h3 h0
+    exact ⟨a1, a2, a3, a4⟩
+  | hashmap =>
+    obtain ⟨h1, h2, h3, h4⟩ := hm_allocate_spec' hk hinv h
+    exact ⟨h1, h2, hr, ha, h3, fun h0 => (h4 h0).1⟩
+
+/-! ### `ReleasePendingPages`: frames -/
+
+theorem mergeSpans_allocs (f : FL) (ids : List Pgid) : (f.mergeSpans ids).allocs = f.allocs := by
+  unfold FL.mergeSpans; split
+  · rfl
+  · split <;> rfl
+
+theorem release_allocs (f : FL) (t : Txid) : (f.release t).allocs = f.allocs := by
+  unfold FL.release; exact mergeSpans_allocs _ _
+
+theorem release_readers (f : FL) (t : Txid) : (f.release t).readers = f.readers := by
+  unfold FL.release; exact mergeSpans_readers _ _
+
+theorem releaseRange_allocs (f : FL) (b e : Txid) : (f.releaseRange b e).allocs = f.allocs := by
+  unfold FL.releaseRange; split
+  · rfl
+  · exact mergeSpans_allocs _ _
+
+theorem releaseRange_readers (f : FL) (b e : Txid) : (f.releaseRange b e).readers = f.readers := by
+  unfold FL.releaseRange; split
+  · rfl
+  · exact mergeSpans_readers _ _
+
+theorem rpTail_frame (l : List Txid) : ∀ (g : FL) (m : Txid),
+    (rpTail l g m).allocs = g.allocs ∧ (rpTail l g m).readers = g.readers := by
+  induction l with
+  | nil => intro g m; rw [rpTail_nil]; exact ⟨releaseRange_allocs _ _ _, releaseRange_readers _ _ _⟩
+  | cons tid l ih =>
+    intro g m
+    rw [rpTail_cons]
+    obtain ⟨h1, h2⟩ := ih (if tid > 0 then g.releaseRange m (tid - 1) else g) (inc64 tid)
+    rw [h1, h2]
+    split
+    · exact ⟨releaseRange_allocs _ _ _, releaseRange_readers _ _ _⟩
+    · exact ⟨rfl, rfl⟩
+
+theorem rpFirst_frame (f : FL) :
+    (rpFirst f).allocs = f.allocs ∧ (rpFirst f).readers = sortNat f.readers := by
+  unfold rpFirst
+  split
+  · exact ⟨release_allocs _ _, release_readers _ _⟩
+  · exact ⟨rfl, rfl⟩
+
+theorem releasePending_allocs (f : FL) : f.releasePending.allocs = f.allocs := by
+  rw [releasePending_eq, (rpTail_frame _ _ _).1, (rpFirst_frame f).1]
+
+theorem releasePending_readers (f : FL) : f.releasePending.readers = sortNat f.readers := by
+  rw [releasePending_eq, (rpTail_frame _ _ _).2, (rpFirst_frame f).2]
+
+/-- `Rel` in terms of pending entries. -/
+theorem Rel.pent {P : Txid → Txid → Prop} {f g : FL} (h : Rel P f g) {t q a : Nat}
+    (hp : PEnt g.pending t q a) : PEnt f.pending t q a := by
+  obtain ⟨txp', h1, h2⟩ := hp
+  obtain ⟨txp, h3, h4⟩ := h.2.2.2 t txp' h1
+  exact ⟨txp, h3, h4 _ h2⟩
+
+theorem Rel.key {P : Txid → Txid → Prop} {f g : FL} (h : Rel P f g) :
+    ∀ e ∈ g.pending, ∃ e' ∈ f.pending, e'.1 = e.1 := by
+  intro e he
+  obtain ⟨txp, h3, _⟩ := h.2.2.2 e.1 e.2 he
+  exact ⟨(e.1, txp), h3, rfl⟩
+
+/-! ### `Rollback` -/
+
+theorem foldl_setAlloc_mem (ids : List (Pgid × Txid)) : ∀ (al : List (Pgid × Txid)) (x : Pgid × Txid),
+    x ∈ ids.foldl (fun al q => if q.2 = 0 then al else setAlloc al q.1 q.2) al → x ∈ al ∨ x ∈ ids := by
+  induction ids with
+  | nil => intro al x h; exact Or.inl h
+  | cons q qs ih =>
+    intro al x h
+    rw [List.foldl_cons] at h
+    rcases ih _ x h with h | h
+    · split at h
+      · exact Or.inl h
+      · rcases mem_setAlloc h with h | h
+        · exact Or.inr (h ▸ List.mem_cons_self)
+        · exact Or.inl h
+    · exact Or.inr (List.mem_cons_of_mem _ h)
+
+theorem rollback_allocs {f g : FL} {txid : Nat} (h : f.rollback txid = some g) :
+    g.readers = f.readers ∧ ∀ x ∈ g.allocs, x ∈ f.allocs ∨ PEnt f.pending txid x.1 x.2 := by
+  unfold FL.rollback at h
+  split at h
+  · cases h; exact ⟨rfl, fun x hx => Or.inl hx⟩
+  · rename_i t txp hsome
+    split at h
+    · cases h
+    · cases h
+      refine ⟨rfl, fun x hx => ?_⟩
+      have h1 := List.mem_of_find?_eq_some hsome
+      have h2 : t = txid := by simpa using List.find?_some hsome
+      rcases foldl_setAlloc_mem _ _ _ (List.mem_filter.mp hx).1 with h3 | h3
+      · exact Or.inl h3
+      · exact Or.inr ⟨txp, h2 ▸ h1, h3⟩
+
+theorem rollback_isSome {f : FL} {txid : Nat} (h : ∀ q a, PEnt f.pending txid q a → a ≠ txid) :
+    (f.rollback txid).isSome = true := by
+  unfold FL.rollback
+  split
+  · rfl
+  · rename_i t txp hsome
+    have h1 := List.mem_of_find?_eq_some hsome
+    have h2 : t = txid := by simpa using List.find?_some hsome
+    have : txp.ids.any (fun q => q.2 ≠ 0 ∧ q.2 = txid) = false := by
+      rw [List.any_eq_false]
+      intro q hq
+      have := h q.1 q.2 ⟨txp, h2 ▸ h1, hq⟩
+      simp [this]
+    simp only [this]
+    rfl
+
+theorem pidsOf_filter_sublist (p : Txid × TxPending → Bool) (l : List (Txid × TxPending)) :
+    (pidsOf (l.filter p)).Sublist (pidsOf l) := by
+  induction l with
+  | nil => exact List.Sublist.refl _
+  | cons x xs ih =>
+    rw [List.filter_cons]
+    split
+    · rw [pidsOf_cons, pidsOf_cons]
+      exact List.Sublist.append (List.Sublist.refl _) ih
+    · rw [pidsOf_cons]
+      exact ih.trans (List.sublist_append_right _ _)
+
+theorem FLInv.filterPending {f g : FL} (hinv : FLInv f) (p : Txid × TxPending → Bool)
+    (hk : g.kind = f.kind) (hi : g.ids = f.ids) (hs : g.spans = f.spans)
+    (hp : g.pending = f.pending.filter p) : FLInv g := by
+  have h1 := freeIds_congr hk hi hs
+  have hsub : g.pendingIds.Sublist f.pendingIds := by
+    rw [pendingIds_eq, pendingIds_eq, hp]; exact pidsOf_filter_sublist p _
+  refine ⟨by rw [hk, hi]; exact hinv.array_sorted, by rw [hk, hs]; exact hinv.spans_wf, ?_, ?_, ?_, ?_⟩
+  · intro q hq hq'
+    exact hinv.disjoint q (h1 ▸ hq) (hsub.subset hq')
+  · exact hsub.nodup hinv.pending_nodup
+  · rw [hp]; exact (List.Sublist.map _ List.filter_sublist).nodup hinv.pending_keys
+  · intro q hq; exact hinv.pending_ge2 q (hsub.subset hq)
+
+theorem rollback_inv {f g : FL} (hinv : FLInv f) {txid : Nat} (h : f.rollback txid = some g) : FLInv g := by
+  obtain ⟨h1, h2, h3, h4⟩ := rollback_frame' h
+  exact hinv.filterPending _ h1 h2 h3 h4
+
+/-! ### `Init` -/
+
+theorem init_frame {f g : FL} {ids : List Pgid} (h : f.init ids = some g) :
+    g.readers = f.readers ∧ g.allocs = f.allocs ∧ g.pending = f.pending ∧ g.kind = f.kind := by
+  unfold FL.init at h
+  split at h
+  · cases h; exact ⟨rfl, rfl, rfl, rfl⟩
+  · split at h
+    · cases h; exact ⟨rfl, rfl, rfl, rfl⟩
+    · cases h
+
+theorem spansOfSorted_go_wf (start size : Nat) (ys : List Nat)
+    (hsz : 0 < size) (h2 : 2 ≤ start)
+    (hs : ys.Pairwise (· < ·)) (hge : ∀ y ∈ ys, start + size ≤ y) :
+    SpansWF (spansOfSorted.go start size ys) ∧ ∀ s ∈ spansOfSorted.go start size ys, start ≤ s.1 := by
+  fun_induction spansOfSorted.go start size ys with
+  | case1 start size =>
+    refine ⟨⟨?_, by simp⟩, ?_⟩
+    · intro s hs'; simp only [List.mem_singleton] at hs'; subst hs'; exact ⟨hsz, h2⟩
+    · intro s hs'; simp only [List.mem_singleton] at hs'; subst hs'; exact Nat.le_refl _
+  | case2 start size ys ih =>
+    rw [List.pairwise_cons] at hs
+    apply ih (by omega) h2 hs.2
+    intro z hz
+    have := hs.1 z hz
+    fomega
+  | case3 start size y ys hy ih =>
+    rw [List.pairwise_cons] at hs
+    have hy' := hge y (by simp)
+    obtain ⟨⟨w1, w2⟩, w3⟩ := ih (by omega) (by fomega) hs.2 (by
+      intro z hz
+      have := hs.1 z hz
+      fomega)
+    refine ⟨⟨?_, ?_⟩, ?_⟩
+    · intro s hs'
+      rcases List.mem_cons.mp hs' with h | h
+      · subst h; exact ⟨hsz, h2⟩
+      · exact w1 s h
+    · rw [List.pairwise_cons]
+      refine ⟨?_, w2⟩
+      intro s hs'
+      have := w3 s hs'
+      show start + size < s.1
+      fomega
+    · intro s hs'
+      rcases List.mem_cons.mp hs' with h | h
+      · subst h; exact Nat.le_refl _
+      · have := w3 s h
+        fomega
+
+theorem spansOfSorted_wf {l : List Nat} (hs : l.Pairwise (· < ·)) (hge : ∀ q ∈ l, 2 ≤ q) :
+    SpansWF (spansOfSorted l) := by
+  cases l with
+  | nil => exact SpansWF.nil
+  | cons x xs =>
+    rw [List.pairwise_cons] at hs
+    simp only [spansOfSorted]
+    refine (spansOfSorted_go_wf x 1 xs (by omega) (hge x (by simp)) hs.2 ?_).1
+    intro y hy
+    have := hs.1 y hy
+    fomega
+
+/-- `Init` on a sorted list of ids ≥ 2 disjoint from the pending ids yields a well-formed
+    allocator whose free ids are exactly that list (both backends). -/
+theorem init_inv {f : FL} {ids : List Pgid} (hs : ids.Pairwise (· < ·)) (hge : ∀ q ∈ ids, 2 ≤ q)
+    (hd : ∀ q ∈ ids, q ∉ f.pendingIds) (hn : f.pendingIds.Nodup)
+    (hkeys : (f.pending.map (·.1)).Nodup) (hg2 : ∀ q ∈ f.pendingIds, 2 ≤ q) :
+    ∃ g, f.init ids = some g ∧ FLInv g ∧ g.freeIds = ids := by
+  obtain ⟨g, h1, h2, h3⟩ := init_freeIds hs f
+  have hpi : g.pendingIds = f.pendingIds := pendingIds_congr h3
+  refine ⟨g, h1, ⟨?_, ?_, ?_, ?_, ?_, ?_⟩, h2⟩
+  · intro hk
+    have : g.ids = ids := by
+      unfold FL.init at h1
+      split at h1
+      · cases h1; rfl
+      · rename_i hk'
+        split at h1
+        · cases h1; rw [hk'] at hk; cases hk
+        · cases h1
+    rw [this]; exact ⟨hs, hge⟩
+  · intro hk
+    have : g.spans = spansOfSorted ids := by
+      unfold FL.init at h1
+      split at h1
+      · rename_i hk'; cases h1; rw [hk'] at hk; cases hk
+      · split at h1
+        · cases h1; rfl
+        · cases h1
+    rw [this]; exact spansOfSorted_wf hs hge
+  · intro q hq; rw [hpi]; rw [h2] at hq; exact hd q hq
+  · rw [hpi]; exact hn
+  · rw [h3]; exact hkeys
+  · rw [hpi]; exact hg2
+
+theorem lookupAlloc_cases (allocs : List (Pgid × Txid)) (id : Pgid) :
+    (lookupAlloc allocs id).getD 0 = 0 ∨ (id, (lookupAlloc allocs id).getD 0) ∈ allocs := by
+  unfold lookupAlloc
+  cases hfind : allocs.find? (fun a => a.1 = id) with
+  | none => exact Or.inl rfl
+  | some x =>
+    right
+    have h1 := List.mem_of_find?_eq_some hfind
+    have h2 : x.1 = id := by simpa using List.find?_some hfind
+    simp only [Option.map_some, Option.getD_some]
+    rw [← h2]
+    exact h1
+
+/-- what `Free` does, in terms of pending entries -/
+theorem free_spec' {f : FL} (hinv : FLInv f) {txid id ov : Nat} {g : FL} (h : f.free txid id ov = some g) :
+    FLInv g ∧ g.freeIds = f.freeIds ∧ g.readers = f.readers ∧
+    (∀ x ∈ g.allocs, x ∈ f.allocs) ∧
+    (∀ p, p ∈ g.pendingIds ↔ (p ∈ f.pendingIds ∨ (id ≤ p ∧ p < id + (ov + 1)))) ∧
+    (∀ t q a, PEnt g.pending t q a ↔
+      (PEnt f.pending t q a ∨ (t = txid ∧ (id ≤ q ∧ q < id + (ov + 1)) ∧ a = (lookupAlloc f.allocs id).getD 0))) ∧
+    (∀ e ∈ g.pending, e.1 = txid ∨ ∃ e' ∈ f.pending, e'.1 = e.1) := by
+  obtain ⟨h1, h2, h3⟩ := free_inv hinv h
+  obtain ⟨_, _, hg⟩ := free_some h
+  refine ⟨h1, h2, by rw [hg], ?_, ?_, ?_, ?_⟩
+  · intro x hx
+    rw [hg] at hx
+    exact (List.mem_filter.mp hx).1
+  · intro p
+    rw [h3.mem_iff, List.mem_append, mem_expandSpan']
+  · intro t q a
+    rw [hg]
+    show PEnt (addPending _ _ _) t q a ↔ _
+    rw [pent_addPending, List.mem_map]
+    constructor
+    · rintro (h4 | ⟨h4, q', h5, h6⟩)
+      · exact Or.inl h4
+      · cases h6
+        exact Or.inr ⟨h4, mem_expandSpan'.mp h5, rfl⟩
+    · rintro (h4 | ⟨h4, h5, h6⟩)
+      · exact Or.inl h4
+      · exact Or.inr ⟨h4, q, mem_expandSpan'.mpr h5, by rw [h6]⟩
+  · rw [hg]
+    exact addPending_key _ _ _
+
+end Bolt.FL
+
 namespace Bolt.Store
 open Bolt.FL
 
 /-- states reachable from a freshly initialised database by any event sequence the
     model accepts (the harness checks that every real trace is accepted) -/
 def Reachable (s : St) : Prop := ∃ k evs, runEvs (init k) evs = some s
+
+/-! ## Part 2 — basic facts about the protocol model -/
+
+theorem mem_run {q id n : Nat} : q ∈ run id n ↔ id ≤ q ∧ q < id + n := by
+  unfold run
+  rw [List.mem_map]
+  constructor
+  · rintro ⟨k, hk, rfl⟩
+    have := List.mem_range.mp hk
+    omega
+  · rintro ⟨h1, h2⟩
+    exact ⟨q - id, List.mem_range.mpr (by omega), by omega⟩
+
+theorem run_nodup (id n : Nat) : (run id n).Nodup := by
+  have : (run id n).Pairwise (· < ·) := expandSpan_sorted (id, n)
+  exact (sorted_lt_iff.mp this).2
+
+theorem contains_false {l : List Nat} {p : Nat} : l.contains p = false ↔ p ∉ l := by
+  rw [← Bool.not_eq_true, List.contains_iff_mem]
+
+theorem mem_used {v : Version} {p : Nat} : p ∈ v.used ↔ ∃ st, (p, st) ∈ v.content := by
+  unfold Version.used
+  rw [List.mem_map]
+  constructor
+  · rintro ⟨⟨p', st⟩, h, rfl⟩; exact ⟨st, h⟩
+  · rintro ⟨st, h⟩; exact ⟨(p, st), h, rfl⟩
+
+theorem mem_used_of_mem {v : Version} {pc : Pgid × Nat} (h : pc ∈ v.content) : pc.1 ∈ v.used :=
+  List.mem_map.mpr ⟨pc, h, rfl⟩
+
+theorem diskGet_of_mem {d : List (Pgid × Nat)} (hnd : (d.map (·.1)).Nodup) {p st : Nat}
+    (h : (p, st) ∈ d) : diskGet d p = some st := by
+  unfold diskGet
+  induction d with
+  | nil => cases h
+  | cons x xs ih =>
+    rw [List.map_cons, List.nodup_cons] at hnd
+    rw [List.find?_cons]
+    rcases List.mem_cons.mp h with e | m
+    · subst e; simp
+    · have hne : x.1 ≠ p := by
+        intro he
+        exact hnd.1 (List.mem_map.mpr ⟨(p, st), m, he.symm⟩)
+      have : (x.1 == p) = false := by simpa using hne
+      rw [this]
+      exact ih hnd.2 m
+
+theorem diskGet_append_of_not_mem {l d : List (Pgid × Nat)} {p : Nat} (h : p ∉ l.map (·.1)) :
+    diskGet (l ++ d) p = diskGet d p := by
+  unfold diskGet
+  rw [List.find?_append]
+  have : l.find? (fun x => x.1 == p) = none := by
+    rw [List.find?_eq_none]
+    intro x hx
+    have : x.1 ≠ p := fun he => h (List.mem_map.mpr ⟨x, hx, he⟩)
+    simpa using this
+  rw [this]; rfl
+
+theorem diskGet_stamped {ps : List Pgid} {t : Nat} {d : List (Pgid × Nat)} {p : Nat} (h : p ∈ ps) :
+    diskGet (ps.map (fun q => (q, t)) ++ d) p = some t := by
+  unfold diskGet
+  rw [List.find?_append]
+  induction ps with
+  | nil => cases h
+  | cons x xs ih =>
+    rw [List.map_cons, List.find?_cons]
+    by_cases hx : x = p
+    · subst hx; simp
+    · have : ((x, t).1 == p) = false := by simpa using hx
+      rw [this]
+      rcases List.mem_cons.mp h with e | m
+      · exact absurd e.symm hx
+      · exact ih m
+
+theorem map_fst_stamped (ps : List Pgid) (t : Nat) : (ps.map (fun q => (q, t))).map (·.1) = ps := by
+  rw [List.map_map]
+  conv => rhs; rw [← List.map_id ps]
+  rfl
+
+theorem diskGet_stamped_of_not_mem {ps : List Pgid} {t : Nat} {d : List (Pgid × Nat)} {p : Nat}
+    (h : p ∉ ps) : diskGet (ps.map (fun q => (q, t)) ++ d) p = diskGet d p :=
+  diskGet_append_of_not_mem (by rw [map_fst_stamped]; exact h)
+
+/-- writing pages that a version does not reference leaves it intact -/
+theorem Intact.write {d : List (Pgid × Nat)} {v : Version} (h : Intact d v) (ps : List Pgid) (t : Nat)
+    (hd : ∀ p ∈ ps, p ∉ v.used) : Intact (ps.map (fun q => (q, t)) ++ d) v := by
+  intro pc hpc
+  rw [diskGet_stamped_of_not_mem]
+  · exact h pc hpc
+  · intro hm
+    exact hd _ hm (mem_used_of_mem hpc)
+
+theorem stampOf_of_mem {v : Version} (hnd : v.used.Nodup) {p st : Nat} (h : (p, st) ∈ v.content) :
+    stampOf v p = some st := diskGet_of_mem hnd h
+
+theorem newVersion_used (cur : Version) (w : W) :
+    (newVersion cur w).used = cur.used.filter (fun p => !w.freed.contains p) ++ w.allocated := by
+  unfold newVersion Version.used
+  simp only [List.map_append, map_fst_stamped]
+  rw [List.filter_map]
+  rfl
+
+theorem mem_newVersion_content {cur : Version} {w : W} {pc : Pgid × Nat} :
+    pc ∈ (newVersion cur w).content ↔
+      ((pc ∈ cur.content ∧ pc.1 ∉ w.freed) ∨ (pc.1 ∈ w.allocated ∧ pc.2 = w.txid)) := by
+  unfold newVersion
+  simp only [List.mem_append, List.mem_filter, List.mem_map, Bool.not_eq_true', contains_false]
+  constructor
+  · rintro (⟨h1, h2⟩ | ⟨p, hp, rfl⟩)
+    · exact Or.inl ⟨h1, h2⟩
+    · exact Or.inr ⟨hp, rfl⟩
+  · rintro (⟨h1, h2⟩ | ⟨h1, h2⟩)
+    · exact Or.inl ⟨h1, h2⟩
+    · exact Or.inr ⟨pc.1, h1, by rw [← h2]⟩
+
+/-! ### the shape of each transition -/
+
+theorem step_beginR {s s' : St} (h : stepAll s .beginR = some s') :
+    s' = { s with readers := s.cur :: s.readers, fl := s.fl.addReader s.cur.txid } := by
+  simp only [stepAll, step, Option.some.injEq] at h
+  exact h.symm
+
+theorem step_endR {s s' : St} {t : Nat} (h : stepAll s (.endR t) = some s') :
+    ∃ v, v ∈ s.readers ∧ v.txid = t ∧
+      s' = { s with readers := s.readers.erase v, fl := s.fl.removeReader t } := by
+  simp only [stepAll, step] at h
+  split at h
+  · cases h
+  · rename_i v hv
+    simp only [Option.some.injEq] at h
+    exact ⟨v, List.mem_of_find?_eq_some hv, by simpa using List.find?_some hv, h.symm⟩
+
+theorem step_beginW {s s' : St} (h : stepAll s .beginW = some s') :
+    s.w = none ∧
+    s' = { s with fl := s.fl.releasePending,
+                  w := some { txid := s.cur.txid + 1, hwm := s.cur.hwm, allocated := [], freed := [] } } := by
+  simp only [stepAll, step] at h
+  split at h
+  · cases h
+  · rename_i hw
+    simp only [Option.some.injEq] at h
+    refine ⟨?_, h.symm⟩
+    cases hsw : s.w with
+    | none => rfl
+    | some w => rw [hsw] at hw; simp at hw
+
+theorem step_alloc {s s' : St} {n c : Nat} (h : stepAll s (.alloc n c) = some s') :
+    ∃ w fl' id, s.w = some w ∧ n ≠ 0 ∧ s.fl.allocate w.txid n c = some (fl', id) ∧
+      ((id ≠ 0 ∧ s' = { s with fl := fl', w := some { w with allocated := w.allocated ++ run id n } }) ∨
+       (id = 0 ∧ s' = { s with fl := fl',
+                               w := some { w with hwm := w.hwm + n, allocated := w.allocated ++ run w.hwm n } })) := by
+  simp only [stepAll, step] at h
+  split at h
+  · cases h
+  · rename_i w hw
+    split at h
+    · cases h
+    · rename_i hn
+      unfold allocStep at h
+      split at h
+      · cases h
+      · rename_i fl' id ha
+        refine ⟨w, fl', id, hw, hn, ha, ?_⟩
+        split at h
+        · rename_i hid
+          simp only [Option.some.injEq] at h
+          exact Or.inl ⟨hid, h.symm⟩
+        · rename_i hid
+          simp only [Option.some.injEq] at h
+          exact Or.inr ⟨by simpa using hid, h.symm⟩
+
+theorem step_free {s s' : St} {id ovf : Nat} (h : stepAll s (.free id ovf) = some s') :
+    ∃ w fl', s.w = some w ∧
+      (∀ p ∈ run id (ovf + 1), p ∈ s.cur.used ∧ p ∉ w.freed ∧ stampOf s.cur p = stampOf s.cur id) ∧
+      s.fl.free w.txid id ovf = some fl' ∧
+      s' = { s with fl := fl', w := some { w with freed := w.freed ++ run id (ovf + 1) } } := by
+  simp only [stepAll, step] at h
+  split at h
+  · cases h
+  · rename_i w hw
+    split at h
+    · rename_i hg
+      split at h
+      · cases h
+      · rename_i fl' hf
+        simp only [Option.some.injEq] at h
+        refine ⟨w, fl', hw, ?_, hf, h.symm⟩
+        intro p hp
+        rw [List.all_eq_true] at hg
+        have := hg p hp
+        simp only [Bool.and_eq_true, List.contains_iff_mem, Bool.not_eq_true', contains_false,
+          beq_iff_eq] at this
+        exact ⟨this.1.1, this.1.2, this.2⟩
+    · cases h
+
+theorem step_commit {s s' : St} (h : stepAll s .commit = some s') :
+    ∃ w, s.w = some w ∧
+      s' = { s with cur := newVersion s.cur w, old := some s.cur, w := none,
+                    disk := w.allocated.map (fun p => (p, w.txid)) ++ s.disk } := by
+  simp only [stepAll, step] at h
+  split at h
+  · cases h
+  · rename_i w hw
+    simp only [Option.some.injEq] at h
+    exact ⟨w, hw, h.symm⟩
+
+theorem step_rollback {s s' : St} (h : stepAll s .rollback = some s') :
+    ∃ w fl', s.w = some w ∧ w.allocated = [] ∧ s.fl.rollback w.txid = some fl' ∧
+      s' = { s with fl := fl', w := none } := by
+  simp only [stepAll, step] at h
+  split at h
+  · cases h
+  · rename_i w hw
+    split at h
+    · cases h
+    · rename_i ha
+      split at h
+      · cases h
+      · rename_i fl' hr
+        simp only [Option.some.injEq] at h
+        exact ⟨w, fl', hw, by simpa using ha, hr, h.symm⟩
+
+theorem step_failedCommit {s s' : St} (h : stepAll s .failedCommit = some s') :
+    ∃ w fl1 fl2, s.w = some w ∧ s.fl.rollback w.txid = some fl1 ∧
+      fl1.noSyncReload (freshFree s.cur) = some fl2 ∧
+      s' = { s with fl := fl2, w := none,
+                    disk := w.allocated.map (fun p => (p, w.txid)) ++ s.disk } := by
+  simp only [stepAll, step] at h
+  split at h
+  · cases h
+  · rename_i w hw
+    split at h
+    · cases h
+    · rename_i fl1 h1
+      split at h
+      · cases h
+      · rename_i fl2 h2
+        simp only [Option.some.injEq] at h
+        exact ⟨w, fl1, fl2, hw, h1, h2, h.symm⟩
+
+theorem step_reopen {s s' : St} {k : Kind} (h : stepAll s (.reopen k) = some s') :
+    s.w = none ∧ s.readers = [] ∧ ∃ fl, (FL.empty k).init (freshFree s.cur) = some fl ∧
+      s' = { s with fl := fl } := by
+  simp only [stepAll, stepReopen] at h
+  split at h
+  · cases h
+  · rename_i hg
+    split at h
+    · cases h
+    · rename_i fl hf
+      simp only [Option.some.injEq] at h
+      have hg' : ¬ s.w.isSome = true ∧ ¬ s.readers ≠ [] := by
+        constructor
+        · intro h1; exact hg (Or.inl h1)
+        · intro h1; exact hg (Or.inr h1)
+      refine ⟨?_, by simpa using hg'.2, fl, hf, h.symm⟩
+      cases hsw : s.w with
+      | none => rfl
+      | some w => rw [hsw] at hg'; simp at hg'
+
+/-! ## Part 3 — the invariants -/
+
+/-- the high-water mark in force -/
+def St.hwm (s : St) : Nat := match s.w with | some w => w.hwm | none => s.cur.hwm
+/-- pages the open writer (if any) has allocated -/
+def St.allocated (s : St) : List Pgid := match s.w with | some w => w.allocated | none => []
+/-- pages the open writer (if any) has freed -/
+def St.freed (s : St) : List Pgid := match s.w with | some w => w.freed | none => []
+
+theorem St.allocated_some {s : St} {w : W} (hw : s.w = some w) : s.allocated = w.allocated := by
+  simp only [St.allocated, hw]
+theorem St.freed_some {s : St} {w : W} (hw : s.w = some w) : s.freed = w.freed := by
+  simp only [St.freed, hw]
+theorem St.hwm_some {s : St} {w : W} (hw : s.w = some w) : s.hwm = w.hwm := by
+  simp only [St.hwm, hw]
+theorem St.allocated_none {s : St} (hw : s.w = none) : s.allocated = [] := by
+  simp only [St.allocated, hw]
+theorem St.freed_none {s : St} (hw : s.w = none) : s.freed = [] := by
+  simp only [St.freed, hw]
+theorem St.hwm_none {s : St} (hw : s.w = none) : s.hwm = s.cur.hwm := by
+  simp only [St.hwm, hw]
+
+/-- **Accounting invariant** (holds in every reachable state, no side condition). -/
+structure Inv (s : St) : Prop where
+  fl : FLInv s.fl
+  regs : s.fl.readers.Perm (s.readers.map (·.txid))
+  rd_le : ∀ r ∈ s.readers, r.txid ≤ s.cur.txid
+  wr_tx : ∀ w, s.w = some w → w.txid = s.cur.txid + 1
+  used_nodup : s.cur.used.Nodup
+  used_bd : ∀ p ∈ s.cur.used, 2 ≤ p ∧ p < s.cur.hwm
+  free_bd : ∀ p ∈ s.fl.freeIds, p < s.cur.hwm
+  pend_bd : ∀ p ∈ s.fl.pendingIds, p < s.cur.hwm
+  used_free : ∀ p ∈ s.cur.used, p ∉ s.fl.freeIds
+  hwm_ge2 : 2 ≤ s.cur.hwm
+  hwm_le : s.cur.hwm ≤ s.hwm
+  alloc_nodup : s.allocated.Nodup
+  alloc_bd : ∀ p ∈ s.allocated, 2 ≤ p ∧ p < s.hwm ∧ p ∉ s.cur.used ∧ p ∉ s.fl.freeIds ∧ p ∉ s.fl.pendingIds
+  cover : ∀ p, 2 ≤ p → p < s.hwm →
+    p ∈ s.cur.used ∨ p ∈ s.fl.freeIds ∨ p ∈ s.fl.pendingIds ∨ p ∈ s.allocated
+  freed_iff : ∀ p, p ∈ s.freed ↔ ∃ a, PEnt s.fl.pending (s.cur.txid + 1) p a
+  used_pend : ∀ p ∈ s.cur.used, p ∈ s.fl.pendingIds → p ∈ s.freed
+  freed_used : ∀ p ∈ s.freed, p ∈ s.cur.used
+  pend_tx : ∀ e ∈ s.fl.pending, e.1 ≤ s.cur.txid + 1
+  allocs_le : ∀ x ∈ s.fl.allocs, x.2 ≤ s.cur.txid + 1 ∧ (x.1 ∈ s.cur.used → x.2 ≤ s.cur.txid)
+  pend_atx : ∀ q a, PEnt s.fl.pending (s.cur.txid + 1) q a → a ≤ s.cur.txid
+  disk : Intact s.disk s.cur
+
+/-- **Reader protection invariant** (needs transaction ids below `2^64 - 1`). -/
+structure RInv (s : St) : Prop where
+  stamps : ∀ pc ∈ s.cur.content, pc.2 ≤ s.cur.txid
+  rstamps : ∀ r ∈ s.readers, ∀ pc ∈ r.content, pc.2 ≤ r.txid
+  prot : ∀ r ∈ s.readers, ∀ pc ∈ r.content, pc ∈ s.cur.content ∨
+    ∃ t a, PEnt s.fl.pending t pc.1 a ∧ a ≤ r.txid ∧ r.txid < t ∧ t ≤ s.cur.txid
+  allocs_st : ∀ x ∈ s.fl.allocs, ∀ st, (x.1, st) ∈ s.cur.content → x.2 ≤ st
+  pend_st : ∀ q a, PEnt s.fl.pending (s.cur.txid + 1) q a → ∀ st, (q, st) ∈ s.cur.content → a ≤ st
+  rdisk : ∀ r ∈ s.readers, Intact s.disk r
+
+theorem empty_freeIds (k : Kind) : (FL.empty k).freeIds = [] := by
+  cases k <;> rfl
+
+theorem empty_inv (k : Kind) : FLInv (FL.empty k) :=
+  ⟨fun _ => ⟨List.Pairwise.nil, fun _ h => (by cases h)⟩, fun _ => SpansWF.nil,
+   fun _ h _ => (by rw [empty_freeIds] at h; cases h), List.nodup_nil, List.nodup_nil,
+   fun _ h => (by cases h)⟩
+
+theorem inv_init (k : Kind) : Inv (init k) := by
+  have hfree := empty_freeIds k
+  have hused : (init k).cur.used = [2, 3] := rfl
+  have hpend : (init k).fl.pendingIds = [] := rfl
+  refine { fl := empty_inv k, regs := List.Perm.refl _, rd_le := fun _ h => (by cases h),
+           wr_tx := fun _ h => (by cases h), used_nodup := (by rw [hused]; decide), used_bd := ?_,
+           free_bd := ?_, pend_bd := fun _ h => (by cases h), used_free := ?_,
+           hwm_ge2 := (by show 2 ≤ 4; omega), hwm_le := Nat.le_refl _, alloc_nodup := List.nodup_nil,
+           alloc_bd := fun _ h => (by cases h),
+           cover := ?_, freed_iff := ?_, used_pend := fun _ _ h => (by cases h),
+           freed_used := fun _ h => (by cases h), pend_tx := fun _ h => (by cases h),
+           allocs_le := fun _ h => (by cases h), pend_atx := ?_, disk := ?_ }
+  · intro p hp
+    rw [hused] at hp
+    simp only [List.mem_cons, List.not_mem_nil, or_false] at hp
+    show 2 ≤ p ∧ p < 4
+    fomega
+  · intro p hp
+    change p ∈ (FL.empty k).freeIds at hp
+    rw [hfree] at hp; cases hp
+  · intro p _ hp
+    change p ∈ (FL.empty k).freeIds at hp
+    rw [hfree] at hp; cases hp
+  · intro p h1 h2
+    left
+    rw [hused]
+    change p < 4 at h2
+    simp only [List.mem_cons, List.not_mem_nil, or_false]
+    omega
+  · intro p
+    constructor
+    · intro h; cases h
+    · rintro ⟨a, h⟩; exact absurd h pent_nil
+  · intro q a h; exact absurd h pent_nil
+  · intro pc hpc
+    change pc ∈ [(2, 0), (3, 0)] at hpc
+    simp only [List.mem_cons, List.not_mem_nil, or_false] at hpc
+    rcases hpc with rfl | rfl <;> rfl
+
+theorem rinv_init (k : Kind) : RInv (init k) := by
+  refine { stamps := ?_, rstamps := fun _ h => (by cases h), prot := fun _ h => (by cases h),
+           allocs_st := fun _ h => (by cases h), pend_st := fun q a h => absurd h pent_nil,
+           rdisk := fun _ h => (by cases h) }
+  intro pc hpc
+  change pc ∈ [(2, 0), (3, 0)] at hpc
+  simp only [List.mem_cons, List.not_mem_nil, or_false] at hpc
+  rcases hpc with rfl | rfl <;> exact Nat.zero_le _
+
+/-! ### preservation, event by event -/
+
+theorem mem_freshFree {v : Version} {p : Nat} : p ∈ freshFree v ↔ (2 ≤ p ∧ p < v.hwm ∧ p ∉ v.used) := by
+  unfold freshFree
+  rw [List.mem_filter, List.mem_range]
+  simp only [Bool.decide_and, Bool.and_eq_true, decide_eq_true_eq, Bool.not_eq_true', contains_false]
+  constructor
+  · rintro ⟨h1, h2, h3⟩; exact ⟨h2, h1, h3⟩
+  · rintro ⟨h1, h2, h3⟩; exact ⟨h2, h1, h3⟩
+
+theorem freshFree_sorted (v : Version) : (freshFree v).Pairwise (· < ·) :=
+  List.Pairwise.filter _ List.pairwise_lt_range
+
+
+/-- the file after the data pages of a commit are written holds the new version -/
+theorem intact_newVersion {s : St} (hi : Inv s) {w : W} (hw : s.w = some w) :
+    Intact (w.allocated.map (fun p => (p, w.txid)) ++ s.disk) (newVersion s.cur w) := by
+  intro pc hpc
+  rcases mem_newVersion_content.mp hpc with ⟨h1, _⟩ | ⟨h1, h2⟩
+  · rw [diskGet_stamped_of_not_mem]
+    · exact hi.disk pc h1
+    · intro ha
+      rw [← St.allocated_some hw] at ha
+      exact (hi.alloc_bd _ ha).2.2.1 (mem_used_of_mem h1)
+  · rw [diskGet_stamped h1, h2]
+
+theorem intact_cur_write {s : St} (hi : Inv s) {w : W} (hw : s.w = some w) (ps : List Pgid)
+    (hps : ∀ p ∈ ps, p ∈ w.allocated) (t : Nat) :
+    Intact (ps.map (fun p => (p, t)) ++ s.disk) s.cur := by
+  apply hi.disk.write
+  intro p hp
+  have := hps p hp
+  rw [← St.allocated_some hw] at this
+  exact (hi.alloc_bd _ this).2.2.1
+
+
+theorem map_erase_perm {α β : Type} [DecidableEq α] [DecidableEq β] (f : α → β) {v : α} {l : List α}
+    (hv : v ∈ l) : ((l.map f).erase (f v)).Perm ((l.erase v).map f) := by
+  induction l with
+  | nil => cases hv
+  | cons x xs ih =>
+    by_cases hx : x = v
+    · subst hx
+      simp
+    · have hv' : v ∈ xs := by
+        rcases List.mem_cons.mp hv with e | m
+        · exact absurd e.symm hx
+        · exact m
+      rw [List.erase_cons_tail (by simpa using hx), List.map_cons, List.map_cons]
+      by_cases hfx : f x = f v
+      · rw [hfx, List.erase_cons_head]
+        exact ((List.perm_cons_erase hv').map f)
+      · rw [List.erase_cons_tail (by simpa using hfx)]
+        exact (ih hv').cons _
+
+theorem inv_beginR {s s' : St} (hi : Inv s) (h : stepAll s .beginR = some s') : Inv s' := by
+  rw [step_beginR h]
+  exact { hi with
+    fl := hi.fl.congr rfl rfl rfl rfl
+    regs := List.perm_append_comm.trans (hi.regs.cons _)
+    rd_le := fun r hr => by
+      rcases List.mem_cons.mp hr with e | m
+      · rw [e]; exact Nat.le_refl _
+      · exact hi.rd_le r m }
+
+theorem inv_endR {s s' : St} {t : Nat} (hi : Inv s) (h : stepAll s (.endR t) = some s') : Inv s' := by
+  obtain ⟨v, hv, hvt, rfl⟩ := step_endR h
+  exact { hi with
+    fl := hi.fl.congr rfl rfl rfl rfl
+    regs := by
+      subst hvt
+      exact (hi.regs.erase v.txid).trans (map_erase_perm (·.txid) hv)
+    rd_le := fun r hr => hi.rd_le r (List.mem_of_mem_erase hr) }
+
+theorem Inv.used_not_pending {s : St} (hi : Inv s) (hw : s.w = none) :
+    ∀ p ∈ s.cur.used, p ∉ s.fl.pendingIds := by
+  intro p hp hpp
+  have := hi.used_pend p hp hpp
+  simp only [St.freed, hw] at this
+  cases this
+
+theorem inv_beginW {s s' : St} (hi : Inv s) (h : stepAll s .beginW = some s') : Inv s' := by
+  obtain ⟨hw, rfl⟩ := step_beginW h
+  have hrel := releasePending_rel_true hi.fl
+  have hnp := hi.used_not_pending hw
+  have hsub := hrel.2.1
+  have hfreed : s.freed = [] := by simp only [St.freed, hw]
+  exact { hi with
+    fl := hrel.1
+    regs := by
+      show (s.fl.releasePending).readers.Perm _
+      rw [releasePending_readers]
+      exact (sortNat_perm _).trans hi.regs
+    wr_tx := fun w hw' => by cases hw'; rfl
+    free_bd := fun p hp => by
+      rcases (hsub p).mp (Or.inl hp) with h1 | h1
+      · exact hi.free_bd p h1
+      · exact hi.pend_bd p h1
+    pend_bd := fun p hp => by
+      rcases (hsub p).mp (Or.inr hp) with h1 | h1
+      · exact hi.free_bd p h1
+      · exact hi.pend_bd p h1
+    used_free := fun p hp hf => by
+      rcases (hsub p).mp (Or.inl hf) with h1 | h1
+      · exact hi.used_free p hp h1
+      · exact hnp p hp h1
+    hwm_le := Nat.le_refl _
+    alloc_nodup := List.nodup_nil
+    alloc_bd := fun p hp => (List.not_mem_nil hp).elim
+    cover := fun p h1 h2 => by
+      rcases hi.cover p h1 (by simp only [St.hwm, hw]; exact h2) with h3 | h3 | h3 | h3
+      · exact Or.inl h3
+      · rcases (hsub p).mpr (Or.inl h3) with h4 | h4
+        · exact Or.inr (Or.inl h4)
+        · exact Or.inr (Or.inr (Or.inl h4))
+      · rcases (hsub p).mpr (Or.inr h3) with h4 | h4
+        · exact Or.inr (Or.inl h4)
+        · exact Or.inr (Or.inr (Or.inl h4))
+      · simp only [St.allocated, hw] at h3
+        cases h3
+    freed_iff := fun p => by
+      constructor
+      · intro hp; exact (List.not_mem_nil hp).elim
+      · rintro ⟨a, hp⟩
+        have := (hi.freed_iff p).mpr ⟨a, hrel.pent hp⟩
+        rw [hfreed] at this
+        cases this
+    used_pend := fun p hp hpp => by
+      rcases (hsub p).mp (Or.inr hpp) with h1 | h1
+      · exact absurd h1 (hi.used_free p hp)
+      · exact absurd h1 (hnp p hp)
+    freed_used := fun p hp => (List.not_mem_nil hp).elim
+    pend_tx := fun e he => by
+      obtain ⟨e', he', h1⟩ := hrel.key e he
+      rw [← h1]; exact hi.pend_tx e' he'
+    allocs_le := fun x hx => by
+      have hx' : x ∈ (s.fl.releasePending).allocs := hx
+      rw [releasePending_allocs] at hx'
+      exact hi.allocs_le x hx'
+    pend_atx := fun q a hp => hi.pend_atx q a (hrel.pent hp) }
+
+theorem inv_alloc {s s' : St} {n c : Nat} (hi : Inv s) (h : stepAll s (.alloc n c) = some s') : Inv s' := by
+  obtain ⟨w, fl', id, hw, hn, ha, h2⟩ := step_alloc h
+  obtain ⟨sp1, hp, hrd, hal, sp5, sp6⟩ := allocate_spec hi.fl ha
+  have hwt := hi.wr_tx w hw
+  have hpi : fl'.pendingIds = s.fl.pendingIds := pendingIds_congr hp
+  have hhwm := hi.hwm_le
+  rw [St.hwm_some hw] at hhwm
+  have hand := hi.alloc_nodup
+  rw [St.allocated_some hw] at hand
+  have habd := hi.alloc_bd
+  rw [St.allocated_some hw, St.hwm_some hw] at habd
+  have hcov := hi.cover
+  rw [St.allocated_some hw, St.hwm_some hw] at hcov
+  rcases h2 with ⟨hid, rfl⟩ | ⟨hid, rfl⟩
+  · obtain ⟨hn0, hid2, hrun, hfree⟩ := sp5 hid
+    exact { hi with
+      fl := sp1
+      regs := by show fl'.readers.Perm _; rw [hrd]; exact hi.regs
+      wr_tx := fun w' hw' => by cases hw'; exact hwt
+      free_bd := fun p hp' => hi.free_bd p ((hfree p).mp hp').1
+      pend_bd := fun p hp' => hi.pend_bd p (hpi ▸ hp')
+      used_free := fun p hp' hf => hi.used_free p hp' ((hfree p).mp hf).1
+      hwm_le := hhwm
+      alloc_nodup := by
+        show (w.allocated ++ run id n).Nodup
+        rw [List.nodup_append]
+        refine ⟨hand, run_nodup _ _, ?_⟩
+        intro a ha1 b hb hab
+        subst hab
+        rw [mem_run] at hb
+        exact (habd a ha1).2.2.2.1 (hrun a hb.1 hb.2)
+      alloc_bd := fun p hp' => by
+        have hp' : p ∈ w.allocated ++ run id n := hp'
+        show 2 ≤ p ∧ p < w.hwm ∧ p ∉ s.cur.used ∧ p ∉ fl'.freeIds ∧ p ∉ fl'.pendingIds
+        rw [hpi]
+        rcases List.mem_append.mp hp' with h1 | h1
+        · obtain ⟨b1, b2, b3, b4, b5⟩ := habd p h1
+          exact ⟨b1, b2, b3, fun hf => b4 ((hfree p).mp hf).1, b5⟩
+        · rw [mem_run] at h1
+          have hf := hrun p h1.1 h1.2
+          have := hi.free_bd p hf
+          refine ⟨hi.fl.freeIds_ge2 hf, by fomega, fun hu => hi.used_free p hu hf,
+                  fun hf' => ((hfree p).mp hf').2 h1, hi.fl.disjoint p hf⟩
+      cover := fun p h1 h3 => by
+        show p ∈ s.cur.used ∨ p ∈ fl'.freeIds ∨ p ∈ fl'.pendingIds ∨ p ∈ w.allocated ++ run id n
+        rw [hpi]
+        rcases hcov p h1 h3 with h4 | h4 | h4 | h4
+        · exact Or.inl h4
+        · by_cases hin : id ≤ p ∧ p < id + n
+          · exact Or.inr (Or.inr (Or.inr (List.mem_append_right _ (mem_run.mpr hin))))
+          · exact Or.inr (Or.inl ((hfree p).mpr ⟨h4, hin⟩))
+        · exact Or.inr (Or.inr (Or.inl h4))
+        · exact Or.inr (Or.inr (Or.inr (List.mem_append_left _ h4)))
+      freed_iff := fun p => by
+        have := hi.freed_iff p
+        rw [St.freed_some hw] at this
+        show p ∈ w.freed ↔ ∃ a, PEnt fl'.pending (s.cur.txid + 1) p a
+        rw [hp]; exact this
+      used_pend := fun p h1 h3 => by
+        have := hi.used_pend p h1 (hpi ▸ h3)
+        rw [St.freed_some hw] at this
+        exact this
+      freed_used := fun p h1 => hi.freed_used p (by rw [St.freed_some hw]; exact h1)
+      pend_tx := fun e he => hi.pend_tx e (hp ▸ he)
+      allocs_le := fun x hx => by
+        rcases hal x hx with h1 | h1
+        · exact hi.allocs_le x h1
+        · subst h1
+          refine ⟨by show w.txid ≤ _; fomega, fun hu => ?_⟩
+          exact absurd (hrun id (Nat.le_refl _) (by fomega)) (hi.used_free id hu)
+      pend_atx := fun q a hq => hi.pend_atx q a (hp ▸ hq) }
+  · have hfl := sp6 hid
+    subst hfl
+    exact { hi with
+      wr_tx := fun w' hw' => by cases hw'; exact hwt
+      hwm_le := by show s.cur.hwm ≤ w.hwm + n; fomega
+      alloc_nodup := by
+        show (w.allocated ++ run w.hwm n).Nodup
+        rw [List.nodup_append]
+        refine ⟨hand, run_nodup _ _, ?_⟩
+        intro a ha1 b hb hab
+        subst hab
+        rw [mem_run] at hb
+        have := (habd a ha1).2.1
+        fomega
+      alloc_bd := fun p hp' => by
+        have hp' : p ∈ w.allocated ++ run w.hwm n := hp'
+        show 2 ≤ p ∧ p < w.hwm + n ∧ p ∉ s.cur.used ∧ p ∉ s.fl.freeIds ∧ p ∉ s.fl.pendingIds
+        rcases List.mem_append.mp hp' with h1 | h1
+        · obtain ⟨b1, b2, b3, b4, b5⟩ := habd p h1
+          exact ⟨b1, by fomega, b3, b4, b5⟩
+        · rw [mem_run] at h1
+          have h2 := hi.hwm_ge2
+          refine ⟨by fomega, by fomega, fun hu => ?_, fun hf => ?_, fun hf => ?_⟩
+          · have := (hi.used_bd p hu).2; fomega
+          · have := hi.free_bd p hf; fomega
+          · have := hi.pend_bd p hf; fomega
+      cover := fun p h1 h3 => by
+        have h3 : p < w.hwm + n := h3
+        show p ∈ s.cur.used ∨ p ∈ s.fl.freeIds ∨ p ∈ s.fl.pendingIds ∨ p ∈ w.allocated ++ run w.hwm n
+        by_cases hlt : p < w.hwm
+        · rcases hcov p h1 hlt with h4 | h4 | h4 | h4
+          · exact Or.inl h4
+          · exact Or.inr (Or.inl h4)
+          · exact Or.inr (Or.inr (Or.inl h4))
+          · exact Or.inr (Or.inr (Or.inr (List.mem_append_left _ h4)))
+        · exact Or.inr (Or.inr (Or.inr (List.mem_append_right _ (mem_run.mpr ⟨by fomega, h3⟩))))
+      freed_iff := fun p => by
+        have := hi.freed_iff p
+        rw [St.freed_some hw] at this
+        exact this
+      used_pend := fun p h1 h3 => by
+        have := hi.used_pend p h1 h3
+        rw [St.freed_some hw] at this
+        exact this
+      freed_used := fun p h1 => hi.freed_used p (by rw [St.freed_some hw]; exact h1) }
+
+theorem inv_free {s s' : St} {id ovf : Nat} (hi : Inv s) (h : stepAll s (.free id ovf) = some s') : Inv s' := by
+  obtain ⟨w, fl', hw, hg, hf, rfl⟩ := step_free h
+  obtain ⟨f1, hfree, hrd, hal, hpi, hpent, hkey⟩ := free_spec' hi.fl hf
+  have hwt := hi.wr_tx w hw
+  have hhwm := hi.hwm_le
+  rw [St.hwm_some hw] at hhwm
+  have hand := hi.alloc_nodup
+  rw [St.allocated_some hw] at hand
+  have habd := hi.alloc_bd
+  rw [St.allocated_some hw, St.hwm_some hw] at habd
+  have hcov := hi.cover
+  rw [St.allocated_some hw, St.hwm_some hw] at hcov
+  have hfi := hi.freed_iff
+  rw [St.freed_some hw] at hfi
+  have hup := hi.used_pend
+  rw [St.freed_some hw] at hup
+  have hfu := hi.freed_used
+  rw [St.freed_some hw] at hfu
+  exact { hi with
+    fl := f1
+    regs := by show fl'.readers.Perm _; rw [hrd]; exact hi.regs
+    wr_tx := fun w' hw' => by cases hw'; exact hwt
+    free_bd := fun p hp => hi.free_bd p (hfree ▸ hp)
+    pend_bd := fun p hp => by
+      rcases (hpi p).mp hp with h1 | h1
+      · exact hi.pend_bd p h1
+      · exact (hi.used_bd p (hg p (mem_run.mpr h1)).1).2
+    used_free := fun p hp hf' => hi.used_free p hp (hfree ▸ hf')
+    hwm_le := hhwm
+    alloc_nodup := hand
+    alloc_bd := fun p hp => by
+      obtain ⟨b1, b2, b3, b4, b5⟩ := habd p hp
+      refine ⟨b1, b2, b3, fun hf' => b4 (hfree ▸ hf'), fun hp' => ?_⟩
+      rcases (hpi p).mp hp' with h1 | h1
+      · exact b5 h1
+      · exact b3 (hg p (mem_run.mpr h1)).1
+    cover := fun p h1 h2 => by
+      rcases hcov p h1 h2 with h3 | h3 | h3 | h3
+      · exact Or.inl h3
+      · exact Or.inr (Or.inl (hfree ▸ h3))
+      · exact Or.inr (Or.inr (Or.inl ((hpi p).mpr (Or.inl h3))))
+      · exact Or.inr (Or.inr (Or.inr h3))
+    freed_iff := fun p => by
+      show p ∈ w.freed ++ run id (ovf + 1) ↔ ∃ a, PEnt fl'.pending (s.cur.txid + 1) p a
+      rw [List.mem_append, hfi p, mem_run]
+      constructor
+      · rintro (⟨a, h1⟩ | h1)
+        · exact ⟨a, (hpent _ _ _).mpr (Or.inl h1)⟩
+        · exact ⟨_, (hpent _ _ _).mpr (Or.inr ⟨hwt.symm, h1, rfl⟩)⟩
+      · rintro ⟨a, h1⟩
+        rcases (hpent _ _ _).mp h1 with h2 | ⟨_, h2, _⟩
+        · exact Or.inl ⟨a, h2⟩
+        · exact Or.inr h2
+    used_pend := fun p hp hpp => by
+      show p ∈ w.freed ++ run id (ovf + 1)
+      rcases (hpi p).mp hpp with h1 | h1
+      · exact List.mem_append_left _ (hup p hp h1)
+      · exact List.mem_append_right _ (mem_run.mpr h1)
+    freed_used := fun p hp => by
+      have hp : p ∈ w.freed ++ run id (ovf + 1) := hp
+      rcases List.mem_append.mp hp with h1 | h1
+      · exact hfu p h1
+      · exact (hg p h1).1
+    pend_tx := fun e he => by
+      rcases hkey e he with h1 | ⟨e', he', h1⟩
+      · rw [h1, hwt]; exact Nat.le_refl _
+      · rw [← h1]; exact hi.pend_tx e' he'
+    allocs_le := fun x hx => hi.allocs_le x (hal x hx)
+    pend_atx := fun q a hq => by
+      rcases (hpent _ _ _).mp hq with h1 | ⟨_, h1, h2⟩
+      · exact hi.pend_atx q a h1
+      · rw [h2]
+        rcases lookupAlloc_cases s.fl.allocs id with h3 | h3
+        · rw [h3]; exact Nat.zero_le _
+        · exact (hi.allocs_le _ h3).2 (hg id (mem_run.mpr ⟨Nat.le_refl _, by omega⟩)).1 }
+
+theorem mem_newVersion_used {cur : Version} {w : W} {p : Nat} :
+    p ∈ (newVersion cur w).used ↔ ((p ∈ cur.used ∧ p ∉ w.freed) ∨ p ∈ w.allocated) := by
+  rw [newVersion_used, List.mem_append, List.mem_filter]
+  simp only [Bool.not_eq_true', contains_false]
+
+theorem inv_commit {s s' : St} (hi : Inv s) (h : stepAll s .commit = some s') : Inv s' := by
+  obtain ⟨w, hw, rfl⟩ := step_commit h
+  have hwt := hi.wr_tx w hw
+  have hhwm := hi.hwm_le
+  rw [St.hwm_some hw] at hhwm
+  have hand := hi.alloc_nodup
+  rw [St.allocated_some hw] at hand
+  have habd := hi.alloc_bd
+  rw [St.allocated_some hw, St.hwm_some hw] at habd
+  have hcov := hi.cover
+  rw [St.allocated_some hw, St.hwm_some hw] at hcov
+  have hfi := hi.freed_iff
+  rw [St.freed_some hw] at hfi
+  have hup := hi.used_pend
+  rw [St.freed_some hw] at hup
+  have hnokey : ∀ q a, ¬ PEnt s.fl.pending (w.txid + 1) q a := by
+    intro q a hp
+    obtain ⟨e, he, het⟩ := hp.key
+    have := hi.pend_tx e he
+    fomega
+  have hge2 := hi.hwm_ge2
+  exact { hi with
+    rd_le := fun r hr => by
+      have := hi.rd_le r hr
+      show r.txid ≤ w.txid
+      fomega
+    wr_tx := fun w' hw' => by cases hw'
+    used_nodup := by
+      rw [newVersion_used, List.nodup_append]
+      refine ⟨hi.used_nodup.sublist List.filter_sublist, hand, ?_⟩
+      intro a ha b hb hab
+      subst hab
+      exact (habd a hb).2.2.1 (List.mem_filter.mp ha).1
+    used_bd := fun p hp => by
+      show 2 ≤ p ∧ p < w.hwm
+      rcases mem_newVersion_used.mp hp with ⟨h1, _⟩ | h1
+      · have := hi.used_bd p h1
+        exact ⟨this.1, by fomega⟩
+      · exact ⟨(habd p h1).1, (habd p h1).2.1⟩
+    free_bd := fun p hp => by
+      have := hi.free_bd p hp
+      show p < w.hwm
+      fomega
+    pend_bd := fun p hp => by
+      have := hi.pend_bd p hp
+      show p < w.hwm
+      fomega
+    used_free := fun p hp => by
+      rcases mem_newVersion_used.mp hp with ⟨h1, _⟩ | h1
+      · exact hi.used_free p h1
+      · exact (habd p h1).2.2.2.1
+    hwm_ge2 := by show 2 ≤ w.hwm; fomega
+    hwm_le := Nat.le_refl _
+    alloc_nodup := List.nodup_nil
+    alloc_bd := fun p hp => (List.not_mem_nil hp).elim
+    cover := fun p h1 h2 => by
+      rcases hcov p h1 h2 with h3 | h3 | h3 | h3
+      · by_cases hfr : p ∈ w.freed
+        · obtain ⟨a, ha⟩ := (hfi p).mp hfr
+          exact Or.inr (Or.inr (Or.inl ha.mem_pendingIds))
+        · exact Or.inl (mem_newVersion_used.mpr (Or.inl ⟨h3, hfr⟩))
+      · exact Or.inr (Or.inl h3)
+      · exact Or.inr (Or.inr (Or.inl h3))
+      · exact Or.inl (mem_newVersion_used.mpr (Or.inr h3))
+    freed_iff := fun p => by
+      constructor
+      · intro hp; exact (List.not_mem_nil hp).elim
+      · rintro ⟨a, hp⟩; exact absurd hp (hnokey p a)
+    used_pend := fun p hp hpp => by
+      rcases mem_newVersion_used.mp hp with ⟨h1, h2⟩ | h1
+      · exact absurd (hup p h1 hpp) h2
+      · exact absurd hpp (habd p h1).2.2.2.2
+    freed_used := fun p hp => (List.not_mem_nil hp).elim
+    pend_tx := fun e he => by
+      have := hi.pend_tx e he
+      show e.1 ≤ w.txid + 1
+      fomega
+    allocs_le := fun x hx => by
+      have := (hi.allocs_le x hx).1
+      show x.2 ≤ w.txid + 1 ∧ (_ → x.2 ≤ w.txid)
+      exact ⟨by fomega, fun _ => by fomega⟩
+    pend_atx := fun q a hq => absurd hq (hnokey q a)
+    disk := intact_newVersion hi hw }
+
+/-- what `Rollback(w.txid)` does to the allocator of a state with open writer `w` -/
+theorem rollback_facts {s : St} (hi : Inv s) {w : W} (hw : s.w = some w) {fl1 : FL}
+    (hrb : s.fl.rollback w.txid = some fl1) :
+    FLInv fl1 ∧ fl1.freeIds = s.fl.freeIds ∧ fl1.readers = s.fl.readers ∧
+    (∀ t q a, PEnt fl1.pending t q a ↔ (PEnt s.fl.pending t q a ∧ t ≠ s.cur.txid + 1)) ∧
+    (∀ p, p ∈ fl1.pendingIds ↔ (p ∈ s.fl.pendingIds ∧ p ∉ w.freed)) ∧
+    (∀ e ∈ fl1.pending, e.1 ≤ s.cur.txid) ∧
+    (∀ x ∈ fl1.allocs, x ∈ s.fl.allocs ∨ PEnt s.fl.pending (s.cur.txid + 1) x.1 x.2) := by
+  have hwt := hi.wr_tx w hw
+  have hfi := hi.freed_iff
+  rw [St.freed_some hw] at hfi
+  obtain ⟨h1, h2, h3, h4⟩ := rollback_frame' hrb
+  obtain ⟨h5, h6⟩ := rollback_allocs hrb
+  rw [hwt] at h4 h6
+  have hpent : ∀ t q a, PEnt fl1.pending t q a ↔ (PEnt s.fl.pending t q a ∧ t ≠ s.cur.txid + 1) := by
+    intro t q a
+    rw [h4]
+    exact pent_filter_ne _ _ _ _ _
+  refine ⟨rollback_inv hi.fl hrb, freeIds_congr h1 h2 h3, h5, hpent, ?_, ?_, h6⟩
+  · intro p
+    rw [mem_pendingIds, mem_pendingIds]
+    constructor
+    · rintro ⟨t, a, hp⟩
+      obtain ⟨hp1, hp2⟩ := (hpent t p a).mp hp
+      refine ⟨⟨t, a, hp1⟩, fun hfr => ?_⟩
+      obtain ⟨a', ha'⟩ := (hfi p).mp hfr
+      exact hp2 (hi.fl.pent_unique hp1 ha').1
+    · rintro ⟨⟨t, a, hp⟩, hnf⟩
+      refine ⟨t, a, (hpent t p a).mpr ⟨hp, fun ht => ?_⟩⟩
+      subst ht
+      exact hnf ((hfi p).mpr ⟨a, hp⟩)
+  · intro e he
+    rw [h4, List.mem_filter] at he
+    have h7 := hi.pend_tx e he.1
+    have h8 : e.1 ≠ s.cur.txid + 1 := by simpa using he.2
+    fomega
+
+/-- the state after the writer is abandoned (user rollback / failed commit) -/
+theorem inv_abort {s : St} (hi : Inv s) {w : W} (hw : s.w = some w) {fl1 fl2 : FL}
+    (hrb : s.fl.rollback w.txid = some fl1)
+    (h2 : FLInv fl2) (hrd : fl2.readers = fl1.readers) (hpd : fl2.pending = fl1.pending)
+    (hal : fl2.allocs = fl1.allocs)
+    (hfb : ∀ p ∈ fl2.freeIds, p < s.cur.hwm ∧ p ∉ s.cur.used)
+    (hcv : ∀ p, 2 ≤ p → p < s.cur.hwm → p ∉ s.cur.used → p ∉ fl1.pendingIds → p ∈ fl2.freeIds)
+    (d : List (Pgid × Nat)) (hd : Intact d s.cur) :
+    Inv { s with fl := fl2, w := none, disk := d } := by
+  obtain ⟨_, _, r3, r4, r5, r6, r7⟩ := rollback_facts hi hw hrb
+  have hpi : fl2.pendingIds = fl1.pendingIds := pendingIds_congr hpd
+  have hup := hi.used_pend
+  rw [St.freed_some hw] at hup
+  exact { hi with
+    fl := h2
+    regs := by show fl2.readers.Perm _; rw [hrd, r3]; exact hi.regs
+    wr_tx := fun w' hw' => by cases hw'
+    free_bd := fun p hp => (hfb p hp).1
+    pend_bd := fun p hp => hi.pend_bd p ((r5 p).mp (hpi ▸ hp)).1
+    used_free := fun p hp hf => (hfb p hf).2 hp
+    hwm_le := Nat.le_refl _
+    alloc_nodup := List.nodup_nil
+    alloc_bd := fun p hp => (List.not_mem_nil hp).elim
+    cover := fun p h3 h4 => by
+      show p ∈ s.cur.used ∨ p ∈ fl2.freeIds ∨ p ∈ fl2.pendingIds ∨ p ∈ []
+      rw [hpi]
+      by_cases hu : p ∈ s.cur.used
+      · exact Or.inl hu
+      · by_cases hpp : p ∈ fl1.pendingIds
+        · exact Or.inr (Or.inr (Or.inl hpp))
+        · exact Or.inr (Or.inl (hcv p h3 h4 hu hpp))
+    freed_iff := fun p => by
+      constructor
+      · intro hp; exact (List.not_mem_nil hp).elim
+      · rintro ⟨a, hp⟩
+        have hp : PEnt fl2.pending (s.cur.txid + 1) p a := hp
+        rw [hpd] at hp
+        exact absurd rfl ((r4 _ _ _).mp hp).2
+    used_pend := fun p hp hpp => by
+      have hpp : p ∈ fl2.pendingIds := hpp
+      rw [hpi] at hpp
+      obtain ⟨h5, h6⟩ := (r5 p).mp hpp
+      exact absurd (hup p hp h5) h6
+    freed_used := fun p hp => (List.not_mem_nil hp).elim
+    pend_tx := fun e he => by
+      have he : e ∈ fl2.pending := he
+      rw [hpd] at he
+      have := r6 e he
+      show e.1 ≤ s.cur.txid + 1
+      fomega
+    allocs_le := fun x hx => by
+      have hx : x ∈ fl2.allocs := hx
+      rw [hal] at hx
+      rcases r7 x hx with h5 | h5
+      · exact hi.allocs_le x h5
+      · have := hi.pend_atx _ _ h5
+        exact ⟨by fomega, fun _ => this⟩
+    pend_atx := fun q a hq => by
+      have hq : PEnt fl2.pending (s.cur.txid + 1) q a := hq
+      rw [hpd] at hq
+      exact absurd rfl ((r4 _ _ _).mp hq).2
+    disk := hd }
+
+theorem inv_rollback {s s' : St} (hi : Inv s) (h : stepAll s .rollback = some s') : Inv s' := by
+  obtain ⟨w, fl', hw, hnil, hrb, rfl⟩ := step_rollback h
+  obtain ⟨_, r2, _, _, r5, _, _⟩ := rollback_facts hi hw hrb
+  have hcov := hi.cover
+  rw [St.allocated_some hw, St.hwm_some hw, hnil] at hcov
+  have hhwm := hi.hwm_le
+  rw [St.hwm_some hw] at hhwm
+  have hfu := hi.freed_used
+  rw [St.freed_some hw] at hfu
+  refine inv_abort hi hw hrb (rollback_inv hi.fl hrb) rfl rfl rfl ?_ ?_ s.disk hi.disk
+  · intro p hp
+    rw [r2] at hp
+    exact ⟨hi.free_bd p hp, fun hu => hi.used_free p hu hp⟩
+  · intro p h1 h2 h3 h4
+    rw [r2]
+    rcases hcov p h1 (by fomega) with h5 | h5 | h5 | h5
+    · exact absurd h5 h3
+    · exact h5
+    · by_cases hfr : p ∈ w.freed
+      · exact absurd (hfu p hfr) h3
+      · exact absurd ((r5 p).mpr ⟨h5, hfr⟩) h4
+    · cases h5
+
+theorem inv_failedCommit {s s' : St} (hi : Inv s) (h : stepAll s .failedCommit = some s') : Inv s' := by
+  obtain ⟨w, fl1, fl2, hw, hrb, hre, rfl⟩ := step_failedCommit h
+  have hf1 := rollback_inv hi.fl hrb
+  have hs : ((freshFree s.cur).filter (fun id => !fl1.pendingIds.contains id)).Pairwise (· < ·) :=
+    List.Pairwise.filter _ (freshFree_sorted s.cur)
+  obtain ⟨g, hg1, hg2, hg3⟩ := init_inv (f := fl1) hs
+    (fun q hq => (mem_freshFree.mp (List.mem_filter.mp hq).1).1)
+    (fun q hq => by
+      have := (List.mem_filter.mp hq).2
+      simpa [contains_false] using this)
+    hf1.pending_nodup hf1.pending_keys hf1.pending_ge2
+  have hre' : fl1.init ((freshFree s.cur).filter (fun id => !fl1.pendingIds.contains id)) = some fl2 := hre
+  rw [hre'] at hg1
+  cases hg1
+  obtain ⟨i1, i2, i3, _⟩ := init_frame hre'
+  have hmem : ∀ p, p ∈ fl2.freeIds ↔ (p ∈ freshFree s.cur ∧ p ∉ fl1.pendingIds) := by
+    intro p
+    rw [hg3, List.mem_filter]
+    simp only [Bool.not_eq_true', contains_false]
+  refine inv_abort hi hw hrb hg2 i1 i3 i2 ?_ ?_ _ (intact_cur_write hi hw _ (fun p hp => hp) _)
+  · intro p hp
+    obtain ⟨h1, _⟩ := (hmem p).mp hp
+    rw [mem_freshFree] at h1
+    exact ⟨h1.2.1, h1.2.2⟩
+  · intro p h1 h2 h3 h4
+    exact (hmem p).mpr ⟨mem_freshFree.mpr ⟨h1, h2, h3⟩, h4⟩
+
+theorem inv_reopen {s s' : St} {k : Kind} (hi : Inv s) (h : stepAll s (.reopen k) = some s') : Inv s' := by
+  obtain ⟨hw, hnr, fl, hfl, rfl⟩ := step_reopen h
+  obtain ⟨g, hg1, hg2, hg3⟩ := init_inv (f := FL.empty k) (freshFree_sorted s.cur)
+    (fun q hq => (mem_freshFree.mp hq).1) (fun q _ hq => by cases hq)
+    List.nodup_nil List.nodup_nil (fun q hq => by cases hq)
+  rw [hfl] at hg1
+  cases hg1
+  obtain ⟨i1, i2, i3, _⟩ := init_frame hfl
+  have hp : fl.pending = [] := i3
+  have hpi : fl.pendingIds = [] := by rw [pendingIds_eq, hp]; rfl
+  have hal : fl.allocs = [] := i2
+  exact { hi with
+    fl := hg2
+    regs := by
+      show fl.readers.Perm _
+      rw [i1, hnr]
+      exact List.Perm.refl _
+    free_bd := fun p hp' => by
+      have hp' : p ∈ fl.freeIds := hp'
+      rw [hg3] at hp'
+      exact (mem_freshFree.mp hp').2.1
+    pend_bd := fun p hp' => by
+      have hp' : p ∈ fl.pendingIds := hp'
+      rw [hpi] at hp'; cases hp'
+    used_free := fun p hu hf => by
+      have hf : p ∈ fl.freeIds := hf
+      rw [hg3] at hf
+      exact (mem_freshFree.mp hf).2.2 hu
+    alloc_bd := fun p hp' => by
+      have hp' : p ∈ s.allocated := hp'
+      rw [St.allocated_none hw] at hp'; cases hp'
+    cover := fun p h1 h2 => by
+      have h2 : p < s.hwm := h2
+      rw [St.hwm_none hw] at h2
+      show p ∈ s.cur.used ∨ p ∈ fl.freeIds ∨ _
+      by_cases hu : p ∈ s.cur.used
+      · exact Or.inl hu
+      · right; left
+        rw [hg3]
+        exact mem_freshFree.mpr ⟨h1, h2, hu⟩
+    freed_iff := fun p => by
+      show p ∈ s.freed ↔ ∃ a, PEnt fl.pending (s.cur.txid + 1) p a
+      rw [St.freed_none hw, hp]
+      constructor
+      · intro h1; cases h1
+      · rintro ⟨a, h1⟩; exact absurd h1 pent_nil
+    used_pend := fun p _ hpp => by
+      have hpp : p ∈ fl.pendingIds := hpp
+      rw [hpi] at hpp; cases hpp
+    pend_tx := fun e he => by
+      have he : e ∈ fl.pending := he
+      rw [hp] at he; cases he
+    allocs_le := fun x hx => by
+      have hx : x ∈ fl.allocs := hx
+      rw [hal] at hx; cases hx
+    pend_atx := fun q a hq => by
+      have hq : PEnt fl.pending (s.cur.txid + 1) q a := hq
+      rw [hp] at hq
+      exact absurd hq pent_nil }
+
+theorem inv_step {s s' : St} {e : Ev} (hi : Inv s) (h : stepAll s e = some s') : Inv s' := by
+  cases e with
+  | beginR => exact inv_beginR hi h
+  | endR t => exact inv_endR hi h
+  | beginW => exact inv_beginW hi h
+  | alloc n c => exact inv_alloc hi h
+  | free id ovf => exact inv_free hi h
+  | commit => exact inv_commit hi h
+  | rollback => exact inv_rollback hi h
+  | failedCommit => exact inv_failedCommit hi h
+  | reopen k => exact inv_reopen hi h
+
+theorem runEvs_cons {s s' : St} {e : Ev} {es : List Ev} :
+    runEvs s (e :: es) = some s' ↔ ∃ s1, stepAll s e = some s1 ∧ runEvs s1 es = some s' := by
+  simp only [runEvs]
+  cases stepAll s e with
+  | none => simp
+  | some s1 => simp
+
+theorem runEvs_nil {s s' : St} : runEvs s [] = some s' ↔ s' = s := by
+  simp only [runEvs, Option.some.injEq]
+  exact eq_comm
+
+theorem inv_run {evs : List Ev} : ∀ {s s' : St}, Inv s → runEvs s evs = some s' → Inv s' := by
+  induction evs with
+  | nil => intro s s' hi h; rw [runEvs_nil] at h; exact h ▸ hi
+  | cons e es ih =>
+    intro s s' hi h
+    obtain ⟨s1, hs, h1⟩ := runEvs_cons.mp h
+    exact ih (inv_step hi hs) h1
+
+/-- every reachable state satisfies the accounting invariant -/
+theorem Reachable.inv {s : St} (hr : Reachable s) : Inv s := by
+  obtain ⟨k, evs, h⟩ := hr
+  exact inv_run (inv_init k) h
+
+theorem runEvs_snoc {evs : List Ev} : ∀ {s s1 s' : St} {e : Ev}, runEvs s evs = some s1 →
+    stepAll s1 e = some s' → runEvs s (evs ++ [e]) = some s' := by
+  induction evs with
+  | nil =>
+    intro s s1 s' e h1 h2
+    rw [runEvs_nil] at h1; subst h1
+    exact runEvs_cons.mpr ⟨s', h2, runEvs_nil.mpr rfl⟩
+  | cons e1 es ih =>
+    intro s s1 s' e h1 h2
+    obtain ⟨s2, hs, h3⟩ := runEvs_cons.mp h1
+    exact runEvs_cons.mpr ⟨s2, hs, ih h3 h2⟩
+
+theorem Reachable.step {s s' : St} {e : Ev} (hr : Reachable s) (h : stepAll s e = some s') : Reachable s' := by
+  obtain ⟨k, evs, hrun⟩ := hr
+  exact ⟨k, evs ++ [e], runEvs_snoc hrun h⟩
+
+theorem runEvs_append {es1 : List Ev} : ∀ {s s1 s' : St} {es2 : List Ev}, runEvs s es1 = some s1 →
+    runEvs s1 es2 = some s' → runEvs s (es1 ++ es2) = some s' := by
+  induction es1 with
+  | nil => intro s s1 s' es2 h1 h2; rw [runEvs_nil] at h1; subst h1; exact h2
+  | cons e1 es ih =>
+    intro s s1 s' es2 h1 h2
+    obtain ⟨s2, hs, h3⟩ := runEvs_cons.mp h1
+    exact runEvs_cons.mpr ⟨s2, hs, ih h3 h2⟩
+
+theorem Reachable.run {s s' : St} {es : List Ev} (hr : Reachable s) (h : runEvs s es = some s') : Reachable s' := by
+  obtain ⟨k, evs, hrun⟩ := hr
+  exact ⟨k, evs ++ es, runEvs_append hrun h⟩
+
+/-- transaction ids never decrease -/
+theorem txid_mono {s s' : St} {e : Ev} (hi : Inv s) (h : stepAll s e = some s') : s.cur.txid ≤ s'.cur.txid := by
+  cases e with
+  | beginR => rw [step_beginR h]; exact Nat.le_refl _
+  | endR t => obtain ⟨v, _, _, rfl⟩ := step_endR h; exact Nat.le_refl _
+  | beginW => rw [(step_beginW h).2]; exact Nat.le_refl _
+  | alloc n c =>
+    obtain ⟨w, fl', id, _, _, _, h1 | h1⟩ := step_alloc h <;> rw [h1.2] <;> exact Nat.le_refl _
+  | free id ovf => obtain ⟨w, fl', _, _, _, rfl⟩ := step_free h; exact Nat.le_refl _
+  | commit =>
+    obtain ⟨w, hw, rfl⟩ := step_commit h
+    show s.cur.txid ≤ w.txid
+    rw [hi.wr_tx w hw]; omega
+  | rollback => obtain ⟨w, fl', _, _, _, rfl⟩ := step_rollback h; exact Nat.le_refl _
+  | failedCommit => obtain ⟨w, fl1, fl2, _, _, _, rfl⟩ := step_failedCommit h; exact Nat.le_refl _
+  | reopen k => obtain ⟨_, _, fl, _, rfl⟩ := step_reopen h; exact Nat.le_refl _
+
+/-! ### preservation of reader protection, event by event -/
+
+/-- a page of an open reader's version is still referenced by the newest version or is pending -/
+theorem reader_page_cases {s : St} (hri : RInv s) {r : Version} (hr : r ∈ s.readers) {p : Nat}
+    (hp : p ∈ r.used) : p ∈ s.cur.used ∨ p ∈ s.fl.pendingIds := by
+  obtain ⟨st, hst⟩ := mem_used.mp hp
+  rcases hri.prot r hr (p, st) hst with h | ⟨t, a, h, _⟩
+  · exact Or.inl (mem_used.mpr ⟨st, h⟩)
+  · exact Or.inr h.mem_pendingIds
+
+theorem reader_page_not_free {s : St} (hi : Inv s) (hri : RInv s) {r : Version} (hr : r ∈ s.readers)
+    {p : Nat} (hp : p ∈ r.used) : p ∉ s.fl.freeIds := by
+  rcases reader_page_cases hri hr hp with h | h
+  · exact hi.used_free p h
+  · exact fun hf => hi.fl.disjoint p hf h
+
+theorem reader_page_not_allocated {s : St} (hi : Inv s) (hri : RInv s) {r : Version} (hr : r ∈ s.readers)
+    {p : Nat} (hp : p ∈ r.used) : p ∉ s.allocated := by
+  intro ha
+  obtain ⟨_, _, h1, _, h2⟩ := hi.alloc_bd p ha
+  rcases reader_page_cases hri hr hp with h | h
+  · exact h1 h
+  · exact h2 h
+
+
+theorem mem_of_stampOf {v : Version} {p st : Nat} (h : stampOf v p = some st) : (p, st) ∈ v.content := by
+  unfold stampOf at h
+  cases hf : v.content.find? (fun x => x.1 == p) with
+  | none => rw [hf] at h; cases h
+  | some x =>
+    rw [hf] at h
+    simp only [Option.map_some, Option.some.injEq] at h
+    have h1 := List.mem_of_find?_eq_some hf
+    have h2 : x.1 = p := by simpa using List.find?_some hf
+    rw [← h2, ← h]
+    exact h1
+
+theorem rinv_beginR {s s' : St} (hi : Inv s) (hri : RInv s) (h : stepAll s .beginR = some s') : RInv s' := by
+  rw [step_beginR h]
+  exact { hri with
+    rstamps := fun r hr => by
+      rcases List.mem_cons.mp hr with e | m
+      · rw [e]; exact hri.stamps
+      · exact hri.rstamps r m
+    prot := fun r hr => by
+      rcases List.mem_cons.mp hr with e | m
+      · rw [e]; exact fun pc hpc => Or.inl hpc
+      · exact hri.prot r m
+    rdisk := fun r hr => by
+      rcases List.mem_cons.mp hr with e | m
+      · rw [e]; exact hi.disk
+      · exact hri.rdisk r m }
+
+theorem rinv_endR {s s' : St} {t : Nat} (hri : RInv s) (h : stepAll s (.endR t) = some s') : RInv s' := by
+  obtain ⟨v, hv, hvt, rfl⟩ := step_endR h
+  exact { hri with
+    rstamps := fun r hr => hri.rstamps r (List.mem_of_mem_erase hr)
+    prot := fun r hr => hri.prot r (List.mem_of_mem_erase hr)
+    rdisk := fun r hr => hri.rdisk r (List.mem_of_mem_erase hr) }
+
+theorem rinv_beginW {s s' : St} (hi : Inv s) (hri : RInv s) (hb : s.cur.txid + 2 < maxU64)
+    (h : stepAll s .beginW = some s') : RInv s' := by
+  obtain ⟨hw, rfl⟩ := step_beginW h
+  have hrel := releasePending_rel_safe hi.fl (by
+    intro t ht
+    obtain ⟨r, hr, rfl⟩ := List.mem_map.mp (hi.regs.mem_iff.mp ht)
+    have := hi.rd_le r hr
+    fomega)
+  exact { hri with
+    prot := fun r hr pc hpc => by
+      rcases hri.prot r hr pc hpc with h1 | ⟨t, a, hp, h1, h2, h3⟩
+      · exact Or.inl h1
+      · right
+        have hreg : r.txid ∈ s.fl.readers := hi.regs.mem_iff.mpr (List.mem_map.mpr ⟨r, hr, rfl⟩)
+        rcases (hrel.2.1 pc.1).mpr (Or.inr hp.mem_pendingIds) with hq | hq
+        · exfalso
+          rcases hrel.2.2.1 pc.1 hq with h4 | ⟨t', txp, a', h4, h5, h6⟩
+          · exact hi.fl.disjoint _ h4 hp.mem_pendingIds
+          · obtain ⟨e1, e2⟩ := hi.fl.pent_unique hp ⟨txp, h4, h5⟩
+            subst e1; subst e2
+            exact h6 r.txid hreg ⟨h1, h2⟩
+        · obtain ⟨t', a', hp'⟩ := mem_pendingIds.mp hq
+          obtain ⟨e1, e2⟩ := hi.fl.pent_unique hp (hrel.pent hp')
+          subst e1; subst e2
+          exact ⟨t, a, hp', h1, h2, h3⟩
+    allocs_st := fun x hx => by
+      have hx : x ∈ (s.fl.releasePending).allocs := hx
+      rw [releasePending_allocs] at hx
+      exact hri.allocs_st x hx
+    pend_st := fun q a hq => hri.pend_st q a (hrel.pent hq) }
+
+theorem rinv_alloc {s s' : St} {n c : Nat} (hi : Inv s) (hri : RInv s)
+    (h : stepAll s (.alloc n c) = some s') : RInv s' := by
+  obtain ⟨w, fl', id, hw, hn, ha, h2⟩ := step_alloc h
+  obtain ⟨sp1, hp, hrd, hal, sp5, sp6⟩ := allocate_spec hi.fl ha
+  rcases h2 with ⟨hid, rfl⟩ | ⟨hid, rfl⟩
+  · obtain ⟨hn0, hid2, hrun, hfree⟩ := sp5 hid
+    exact { hri with
+      prot := fun r hr pc hpc => by
+        show pc ∈ s.cur.content ∨ ∃ t a, PEnt fl'.pending t pc.1 a ∧ _
+        rw [hp]; exact hri.prot r hr pc hpc
+      allocs_st := fun x hx st hst => by
+        rcases hal x hx with h1 | h1
+        · exact hri.allocs_st x h1 st hst
+        · subst h1
+          exact absurd (hrun id (Nat.le_refl _) (by omega)) (hi.used_free id (mem_used.mpr ⟨st, hst⟩))
+      pend_st := fun q a hq => hri.pend_st q a (hp ▸ hq) }
+  · have hfl := sp6 hid
+    subst hfl
+    exact { hri with }
+
+theorem rinv_free {s s' : St} {id ovf : Nat} (hi : Inv s) (hri : RInv s)
+    (h : stepAll s (.free id ovf) = some s') : RInv s' := by
+  obtain ⟨w, fl', hw, hg, hf, rfl⟩ := step_free h
+  obtain ⟨f1, hfree, hrd, hal, hpi, hpent, hkey⟩ := free_spec' hi.fl hf
+  exact { hri with
+    prot := fun r hr pc hpc => by
+      rcases hri.prot r hr pc hpc with h1 | ⟨t, a, hp, h1⟩
+      · exact Or.inl h1
+      · exact Or.inr ⟨t, a, (hpent _ _ _).mpr (Or.inl hp), h1⟩
+    allocs_st := fun x hx => hri.allocs_st x (hal x hx)
+    pend_st := fun q a hq st hst => by
+      rcases (hpent _ _ _).mp hq with h1 | ⟨_, h1, h2⟩
+      · exact hri.pend_st q a h1 st hst
+      · rw [h2]
+        rcases lookupAlloc_cases s.fl.allocs id with h3 | h3
+        · rw [h3]; exact Nat.zero_le _
+        · have h4 := (hg q (mem_run.mpr h1)).2.2
+          rw [stampOf_of_mem hi.used_nodup hst] at h4
+          exact hri.allocs_st _ h3 st (mem_of_stampOf h4.symm) }
+
+theorem rinv_commit {s s' : St} (hi : Inv s) (hri : RInv s) (h : stepAll s .commit = some s') : RInv s' := by
+  obtain ⟨w, hw, rfl⟩ := step_commit h
+  have hwt := hi.wr_tx w hw
+  have hfi := hi.freed_iff
+  rw [St.freed_some hw] at hfi
+  have hnokey : ∀ q a, ¬ PEnt s.fl.pending (w.txid + 1) q a := by
+    intro q a hp
+    obtain ⟨e, he, het⟩ := hp.key
+    have := hi.pend_tx e he
+    fomega
+  exact { hri with
+    stamps := fun pc hpc => by
+      show pc.2 ≤ w.txid
+      rcases mem_newVersion_content.mp hpc with ⟨h1, _⟩ | ⟨_, h1⟩
+      · have := hri.stamps pc h1; fomega
+      · rw [h1]; exact Nat.le_refl _
+    prot := fun r hr pc hpc => by
+      show pc ∈ (newVersion s.cur w).content ∨ ∃ t a, PEnt s.fl.pending t pc.1 a ∧ a ≤ r.txid ∧ r.txid < t ∧ t ≤ w.txid
+      rcases hri.prot r hr pc hpc with h1 | ⟨t, a, hp, h1, h2, h3⟩
+      · by_cases hfr : pc.1 ∈ w.freed
+        · obtain ⟨a, ha⟩ := (hfi pc.1).mp hfr
+          have h4 := hri.pend_st _ _ ha pc.2 h1
+          have h5 := hri.rstamps r hr pc hpc
+          have h6 := hi.rd_le r hr
+          exact Or.inr ⟨_, a, ha, by fomega, by fomega, by fomega⟩
+        · exact Or.inl (mem_newVersion_content.mpr (Or.inl ⟨h1, hfr⟩))
+      · exact Or.inr ⟨t, a, hp, h1, h2, by fomega⟩
+    allocs_st := fun x hx st hst => by
+      rcases mem_newVersion_content.mp hst with ⟨h1, _⟩ | ⟨_, h1⟩
+      · exact hri.allocs_st x hx st h1
+      · have := (hi.allocs_le x hx).1
+        have h1 : st = w.txid := h1
+        fomega
+    pend_st := fun q a hq => absurd hq (hnokey q a)
+    rdisk := fun r hr => by
+      apply (hri.rdisk r hr).write
+      intro p hp hpr
+      rw [← St.allocated_some hw] at hp
+      exact reader_page_not_allocated hi hri hr hpr hp }
+
+theorem rinv_abort {s : St} (hi : Inv s) (hri : RInv s) {w : W} (hw : s.w = some w) {fl1 fl2 : FL}
+    (hrb : s.fl.rollback w.txid = some fl1)
+    (hpd : fl2.pending = fl1.pending) (hal : fl2.allocs = fl1.allocs)
+    (d : List (Pgid × Nat)) (hd : ∀ r ∈ s.readers, Intact d r) :
+    RInv { s with fl := fl2, w := none, disk := d } := by
+  obtain ⟨_, _, r3, r4, r5, r6, r7⟩ := rollback_facts hi hw hrb
+  exact { hri with
+    prot := fun r hr pc hpc => by
+      show pc ∈ s.cur.content ∨ ∃ t a, PEnt fl2.pending t pc.1 a ∧ _
+      rw [hpd]
+      rcases hri.prot r hr pc hpc with h1 | ⟨t, a, hp, h1, h2, h3⟩
+      · exact Or.inl h1
+      · exact Or.inr ⟨t, a, (r4 _ _ _).mpr ⟨hp, by fomega⟩, h1, h2, h3⟩
+    allocs_st := fun x hx st hst => by
+      have hx : x ∈ fl2.allocs := hx
+      rw [hal] at hx
+      rcases r7 x hx with h5 | h5
+      · exact hri.allocs_st x h5 st hst
+      · exact hri.pend_st _ _ h5 st hst
+    pend_st := fun q a hq => by
+      have hq : PEnt fl2.pending (s.cur.txid + 1) q a := hq
+      rw [hpd] at hq
+      exact absurd rfl ((r4 _ _ _).mp hq).2
+    rdisk := hd }
+
+theorem rinv_rollback {s s' : St} (hi : Inv s) (hri : RInv s) (h : stepAll s .rollback = some s') : RInv s' := by
+  obtain ⟨w, fl', hw, hnil, hrb, rfl⟩ := step_rollback h
+  exact rinv_abort hi hri hw hrb rfl rfl s.disk hri.rdisk
+
+theorem rinv_failedCommit {s s' : St} (hi : Inv s) (hri : RInv s)
+    (h : stepAll s .failedCommit = some s') : RInv s' := by
+  obtain ⟨w, fl1, fl2, hw, hrb, hre, rfl⟩ := step_failedCommit h
+  obtain ⟨_, i2, i3, _⟩ := init_frame (f := fl1) hre
+  refine rinv_abort hi hri hw hrb i3 i2 _ ?_
+  intro r hr
+  apply (hri.rdisk r hr).write
+  intro p hp hpr
+  rw [← St.allocated_some hw] at hp
+  exact reader_page_not_allocated hi hri hr hpr hp
+
+theorem rinv_reopen {s s' : St} {k : Kind} (hri : RInv s) (h : stepAll s (.reopen k) = some s') : RInv s' := by
+  obtain ⟨hw, hnr, fl, hfl, rfl⟩ := step_reopen h
+  obtain ⟨_, i2, i3, _⟩ := init_frame hfl
+  have hp : fl.pending = [] := i3
+  have hal : fl.allocs = [] := i2
+  exact { hri with
+    prot := fun r hr => by
+      have hr : r ∈ s.readers := hr
+      rw [hnr] at hr; cases hr
+    allocs_st := fun x hx => by
+      have hx : x ∈ fl.allocs := hx
+      rw [hal] at hx; cases hx
+    pend_st := fun q a hq => by
+      have hq : PEnt fl.pending (s.cur.txid + 1) q a := hq
+      rw [hp] at hq
+      exact absurd hq pent_nil }
+
+theorem rinv_step {s s' : St} {e : Ev} (hi : Inv s) (hri : RInv s) (hb : s.cur.txid + 2 < maxU64)
+    (h : stepAll s e = some s') : RInv s' := by
+  cases e with
+  | beginR => exact rinv_beginR hi hri h
+  | endR t => exact rinv_endR hri h
+  | beginW => exact rinv_beginW hi hri hb h
+  | alloc n c => exact rinv_alloc hi hri h
+  | free id ovf => exact rinv_free hi hri h
+  | commit => exact rinv_commit hi hri h
+  | rollback => exact rinv_rollback hi hri h
+  | failedCommit => exact rinv_failedCommit hi hri h
+  | reopen k => exact rinv_reopen hri h
+
+theorem run_mono {evs : List Ev} : ∀ {s s' : St}, Inv s → runEvs s evs = some s' →
+    s.cur.txid ≤ s'.cur.txid := by
+  induction evs with
+  | nil => intro s s' _ h; rw [runEvs_nil] at h; subst h; exact Nat.le_refl _
+  | cons e es ih =>
+    intro s s' hi h
+    obtain ⟨s1, hs, h1⟩ := runEvs_cons.mp h
+    exact Nat.le_trans (txid_mono hi hs) (ih (inv_step hi hs) h1)
+
+theorem rinv_run {evs : List Ev} : ∀ {s s' : St}, Inv s → RInv s → runEvs s evs = some s' →
+    s'.cur.txid + 2 < maxU64 → RInv s' := by
+  induction evs with
+  | nil => intro s s' hi hri h hb; rw [runEvs_nil] at h; subst h; exact hri
+  | cons e es ih =>
+    intro s s' hi hri h hb
+    obtain ⟨s1, hs, h1⟩ := runEvs_cons.mp h
+    have hi1 := inv_step hi hs
+    have hm := txid_mono hi hs
+    have hm2 := run_mono hi1 h1
+    exact ih hi1 (rinv_step hi hri (by omega) hs) h1 hb
+
+/-- every reachable state within the first `2^64 - 3` transactions satisfies reader protection -/
+theorem Reachable.rinv {s : St} (hr : Reachable s) (hb : s.cur.txid + 2 < maxU64) : RInv s := by
+  obtain ⟨k, evs, h⟩ := hr
+  exact rinv_run (inv_init k) (rinv_init k) h hb
+
+/-! ## Part 5 — consequences used by the property theorems -/
+
+/-- a state whose pending entries all belong to the open writer -/
+def OwnOnly (s : St) : Prop := ∀ e ∈ s.fl.pending, e.1 = s.cur.txid + 1
+
+theorem ownOnly_run {evs : List Ev}
+    (hevs : ∀ e ∈ evs, (∃ n c, e = .alloc n c) ∨ (∃ i o, e = .free i o)) :
+    ∀ {s s' : St}, Inv s → OwnOnly s → runEvs s evs = some s' → OwnOnly s' := by
+  induction evs with
+  | nil => intro s s' _ ho h; rw [runEvs_nil] at h; subst h; exact ho
+  | cons e es ih =>
+    intro s s' hi ho h
+    obtain ⟨s1, hs, h1⟩ := runEvs_cons.mp h
+    refine ih (fun e he => hevs e (List.mem_cons_of_mem _ he)) (inv_step hi hs) ?_ h1
+    rcases hevs e (by simp) with ⟨n, c, rfl⟩ | ⟨i, o, rfl⟩
+    · obtain ⟨w, fl', id, hw, _, ha, h2⟩ := step_alloc hs
+      have hp := (allocate_spec hi.fl ha).2.1
+      intro e he
+      rcases h2 with ⟨_, rfl⟩ | ⟨_, rfl⟩
+      · exact ho e (hp ▸ he)
+      · exact ho e (hp ▸ he)
+    · obtain ⟨w, fl', hw, _, hf, rfl⟩ := step_free hs
+      obtain ⟨_, _, rfl⟩ := free_some hf
+      intro e he
+      rcases addPending_key _ _ _ e he with h3 | ⟨e', he', h3⟩
+      · rw [h3]; exact hi.wr_tx w hw
+      · rw [← h3]; exact ho e' he'
+
+/-- `beginW` with no reader open releases everything -/
+theorem beginW_no_readers {s s' : St} (hi : Inv s) (hb : s.cur.txid + 2 < maxU64) (hnr : s.readers = [])
+    (h : stepAll s .beginW = some s') :
+    s'.fl.pending = [] ∧ ∀ p, p ∈ s'.fl.freeIds ↔ (p ∈ s.fl.freeIds ∨ p ∈ s.fl.pendingIds) := by
+  rw [(step_beginW h).2]
+  apply releasePending_live hi.fl
+  · have := hi.regs.length_eq
+    rw [hnr] at this
+    exact List.eq_nil_of_length_eq_zero this
+  · intro e he
+    have := hi.pend_tx e he
+    fomega
+
+/-- the failure path never gets stuck -/
+theorem failedCommit_enabled {s : St} (hi : Inv s) {w : W} (hw : s.w = some w) :
+    (stepAll s .failedCommit).isSome = true := by
+  have hwt := hi.wr_tx w hw
+  have h1 : (s.fl.rollback w.txid).isSome = true := by
+    apply rollback_isSome
+    intro q a hp
+    rw [hwt] at hp
+    have := hi.pend_atx q a hp
+    fomega
+  obtain ⟨fl1, hfl1⟩ := Option.isSome_iff_exists.mp h1
+  have hs : ((freshFree s.cur).filter (fun id => !fl1.pendingIds.contains id)).Pairwise (· < ·) :=
+    List.Pairwise.filter _ (freshFree_sorted s.cur)
+  obtain ⟨fl2, hfl2, _⟩ := init_freeIds hs fl1
+  have h2 : fl1.noSyncReload (freshFree s.cur) = some fl2 := hfl2
+  unfold freshFree at h2
+  simp only [stepAll, step, hw, hfl1, h2]
+  rfl
 
 end Bolt.Store
